@@ -1,1 +1,1656 @@
-/-! # C18 — property theorems (to be filled) -/
+import PraatModel.Zero
+import PraatModel.Props.C16
+import PraatModel.Props.C12
+import PraatModel.Props.C08
+import PraatModel.Props.C11
+
+/-!
+# C18 — zero-crossing search finds real crossings; splicing keeps audio and text in step
+
+Theorems about `PraatModel/Zero.lean` for recordings of any length, any targets and steps (exact
+arithmetic; times in ticks of `1/(rate·m)` s, see `Zero.lean`).
+-/
+
+open Audio Zero
+
+namespace C18
+
+/-! ## 1. `list.index`, `utils.find` -/
+
+theorem index?_some {β} [BEq β] [LawfulBEq β] (l : List β) (v : β) (i : Nat) (h : index? l v = some i) :
+    i < l.length ∧ l[i]? = some v ∧ ∀ j, j < i → l[j]? ≠ some v := by
+  induction l generalizing i with
+  | nil => simp [index?] at h
+  | cons x xs ih =>
+    unfold index? at h
+    by_cases hx : (x == v) = true
+    · rw [if_pos hx] at h
+      cases h
+      exact ⟨by simp, by simp [eq_of_beq hx], by intro j hj; omega⟩
+    · rw [if_neg hx] at h
+      cases hr : index? xs v with
+      | none => rw [hr] at h; simp at h
+      | some k =>
+        rw [hr] at h
+        simp only [Option.map_some, Option.some.injEq] at h
+        subst h
+        obtain ⟨h1, h2, h3⟩ := ih k hr
+        refine ⟨by simp; omega, by simpa using h2, ?_⟩
+        intro j hj
+        cases j with
+        | zero =>
+          simp only [List.getElem?_cons_zero, ne_eq, Option.some.injEq]
+          intro hxe; apply hx; rw [hxe]; exact beq_self_eq_true v
+        | succ j => simpa using h3 j (by omega)
+
+theorem index?_none {β} [BEq β] [LawfulBEq β] (l : List β) (v : β) : index? l v = none ↔ v ∉ l := by
+  induction l with
+  | nil => simp [index?]
+  | cons x xs ih =>
+    unfold index?
+    by_cases hx : (x == v) = true
+    · rw [if_pos hx]; simp [eq_of_beq hx]
+    · rw [if_neg hx]
+      have hne : ¬ v = x := by intro h; apply hx; rw [h]; exact beq_self_eq_true x
+      simp [ih, hne]
+
+theorem index?_head {β} [BEq β] [LawfulBEq β] (x : β) (xs : List β) : index? (x :: xs) x = some 0 := by
+  simp [index?]
+
+/-- `utils.find`: the index returned holds the value; forward it is the first such index, with
+`reverse` the last -/
+theorem find_some {β} [BEq β] [LawfulBEq β] (l : List β) (v : β) (rev : Bool) (i : Nat)
+    (h : find l v rev = some i) :
+    i < l.length ∧ l[i]? = some v ∧
+      (rev = false → ∀ j, j < i → l[j]? ≠ some v) ∧ (rev = true → ∀ j, i < j → l[j]? ≠ some v) := by
+  unfold find at h
+  cases rev with
+  | false =>
+    simp only [Bool.false_eq_true, if_false] at h
+    obtain ⟨h1, h2, h3⟩ := index?_some l v i h
+    exact ⟨h1, h2, fun _ => h3, by simp⟩
+  | true =>
+    simp only [if_true] at h
+    cases hr : index? l.reverse v with
+    | none => rw [hr] at h; simp at h
+    | some k =>
+      rw [hr] at h
+      simp only [Option.map_some, Option.some.injEq] at h
+      obtain ⟨h1, h2, h3⟩ := index?_some l.reverse v k hr
+      rw [List.length_reverse] at h1
+      have hi : i < l.length := by omega
+      refine ⟨hi, ?_, by simp, ?_⟩
+      · rw [List.getElem?_reverse h1] at h2
+        have : l.length - 1 - k = i := by omega
+        rw [this] at h2; exact h2
+      · intro _ j hj
+        by_cases hjl : j < l.length
+        · have := h3 (l.length - 1 - j) (by omega)
+          rw [List.getElem?_reverse (by omega)] at this
+          have e : l.length - 1 - (l.length - 1 - j) = j := by omega
+          rw [e] at this; exact this
+        · rw [List.getElem?_eq_none (by omega)]; simp
+
+theorem find_none {β} [BEq β] [LawfulBEq β] (l : List β) (v : β) (rev : Bool) (h : v ∉ l) : find l v rev = none := by
+  unfold find
+  cases rev with
+  | false => simp only [Bool.false_eq_true, if_false]; exact (index?_none l v).2 h
+  | true =>
+    simp only [if_true]
+    rw [(index?_none l.reverse v).2 (by simpa using h)]; rfl
+
+/-! ## 2. sign changes -/
+
+theorem changeList_length (xs : List Int) : (changeList xs).length = xs.length - 1 := by
+  induction xs using changeList.induct with
+  | case1 a b rest ih => simp only [changeList, List.length_cons, ih]; omega
+  | case2 l h =>
+    match l, h with
+    | [], _ => rfl
+    | [_], _ => rfl
+    | a :: b :: rest, h => exact absurd rfl (h a b rest)
+
+theorem changeList_get (xs : List Int) (i : Nat) (h : i + 1 < xs.length) :
+    (changeList xs)[i]? = some (sign (xs.getD i 0) != sign (xs.getD (i + 1) 0)) := by
+  induction xs using changeList.induct generalizing i with
+  | case1 a b rest ih =>
+    cases i with
+    | zero => simp [changeList]
+    | succ i =>
+      simp only [changeList, List.getElem?_cons_succ]
+      have := ih i (by simp at h ⊢; omega)
+      simpa using this
+  | case2 l hl =>
+    match l, hl with
+    | [], _ => simp at h
+    | [_], _ => simp at h
+    | a :: b :: rest, hl => exact absurd rfl (hl a b rest)
+
+theorem mem_changeList (xs : List Int) (h : true ∈ changeList xs) :
+    ∃ a ∈ xs, ∃ b ∈ xs, sign a ≠ sign b := by
+  induction xs using changeList.induct with
+  | case1 a b rest ih =>
+    simp only [changeList, List.mem_cons] at h
+    rcases h with h | h
+    · refine ⟨a, by simp, b, by simp, ?_⟩
+      intro he; rw [he] at h; simp at h
+    · obtain ⟨x, hx, y, hy, hxy⟩ := ih h
+      exact ⟨x, List.mem_cons_of_mem _ hx, y, List.mem_cons_of_mem _ hy, hxy⟩
+  | case2 l hl =>
+    match l, hl with
+    | [], _ => simp [changeList] at h
+    | [_], _ => simp [changeList] at h
+    | a :: b :: rest, hl => exact absurd rfl (hl a b rest)
+
+/-! ## 3. (a) crossing_genuine: an index returned by the window scan is a genuine crossing -/
+
+theorem getD_of_getElem? (xs : List Int) (i : Nat) (v : Int) (h : xs[i]? = some v) : xs.getD i 0 = v := by
+  simp [List.getD, h]
+
+/-- `_getNearestZero`: the sample at the returned index is 0 -/
+theorem nearestZero_zero (xs : List Int) (rev : Bool) (i : Nat) (h : nearestZero xs rev = some i) :
+    i < xs.length ∧ xs.getD i 0 = 0 := by
+  obtain ⟨h1, h2, _⟩ := find_some xs 0 rev i h
+  exact ⟨h1, getD_of_getElem? xs i 0 h2⟩
+
+/-- `_getZeroThresholdCrossing`: the returned index is one of two adjacent samples of different sign -/
+theorem thresholdCrossing_spec (xs : List Int) (rev : Bool) (i : Nat) (h : thresholdCrossing xs rev = some i) :
+    ∃ j, j + 1 < xs.length ∧ sign (xs.getD j 0) ≠ sign (xs.getD (j + 1) 0) ∧ (i = j ∨ i = j + 1) := by
+  unfold thresholdCrossing at h
+  cases hf : find (changeList xs) true rev with
+  | none => rw [hf] at h; simp at h
+  | some j =>
+    rw [hf] at h
+    simp only [Option.map_some, Option.some.injEq] at h
+    obtain ⟨h1, h2, _⟩ := find_some (changeList xs) true rev j hf
+    rw [changeList_length] at h1
+    have hj : j + 1 < xs.length := by omega
+    rw [changeList_get xs j hj] at h2
+    refine ⟨j, hj, ?_, ?_⟩
+    · intro he
+      simp only [Option.some.injEq] at h2
+      rw [he] at h2; simp at h2
+    · unfold closerOfPair at h
+      split at h <;> omega
+
+/-- **crossing_genuine**: whenever the window scan (`_getNearestZero`, else `_getZeroThresholdCrossing`)
+returns index `i`, sample `i` of the window is 0 or differs in sign from its right or left neighbour -/
+theorem crossing_genuine (xs : List Int) (rev : Bool) (i : Nat) (h : nextIdx xs rev = some i) :
+    Genuine xs i := by
+  unfold nextIdx at h
+  cases hz : nearestZero xs rev with
+  | some k =>
+    rw [hz] at h
+    simp only [Option.some.injEq] at h
+    subst h
+    obtain ⟨h1, h2⟩ := nearestZero_zero xs rev k hz
+    exact ⟨h1, Or.inl h2⟩
+  | none =>
+    rw [hz] at h
+    obtain ⟨j, hj, hs, hij⟩ := thresholdCrossing_spec xs rev i h
+    rcases hij with rfl | rfl
+    · exact ⟨by omega, Or.inr (Or.inl ⟨hj, hs⟩)⟩
+    · exact ⟨hj, Or.inr (Or.inr ⟨by omega, by simpa using hs⟩)⟩
+
+/-- a zero in the window is preferred to a sign change -/
+theorem nextIdx_prefers_zero (xs : List Int) (rev : Bool) (h : (0 : Int) ∈ xs) :
+    ∃ i, nextIdx xs rev = some i ∧ xs.getD i 0 = 0 := by
+  unfold nextIdx
+  cases hz : nearestZero xs rev with
+  | some k => exact ⟨k, rfl, (nearestZero_zero xs rev k hz).2⟩
+  | none =>
+    exfalso
+    unfold nearestZero find at hz
+    cases rev with
+    | false =>
+      simp only [Bool.false_eq_true, if_false] at hz
+      exact (index?_none xs 0).1 hz h
+    | true =>
+      simp only [if_true] at hz
+      cases hr : index? xs.reverse 0 with
+      | none => exact (index?_none xs.reverse 0).1 hr (by simpa using h)
+      | some k => rw [hr] at hz; simp at hz
+
+/-- no zero and no sign change in the window: nothing is found -/
+theorem nextIdx_none (xs : List Int) (rev : Bool) (h0 : (0 : Int) ∉ xs) (hs : ∀ a ∈ xs, ∀ b ∈ xs, sign a = sign b) :
+    nextIdx xs rev = none := by
+  unfold nextIdx nearestZero
+  rw [find_none xs 0 rev h0]
+  unfold thresholdCrossing
+  rw [find_none (changeList xs) true rev]
+  · rfl
+  · intro ht
+    obtain ⟨a, ha, b, hb, hab⟩ := mem_changeList xs ht
+    exact hab (hs a ha b hb)
+
+
+/-! ## 4. windows of a recording: Python slices of the sample list -/
+
+theorem slice_length_le (xs : List Int) (i j : Int) (hi : 0 ≤ i) :
+    (slice xs i j).length ≤ xs.length - i.toNat := by
+  have hci : pyClamp xs.length i = min i.toNat xs.length := by
+    unfold pyClamp; rw [if_neg (by omega)]
+  have hcj : pyClamp xs.length j ≤ xs.length := by
+    unfold pyClamp; split <;> omega
+  unfold slice
+  simp only [List.length_drop, List.length_take]
+  rw [hci]
+  omega
+
+theorem slice_getD (xs : List Int) (i j : Int) (hi : 0 ≤ i) (z : Nat) (hz : z < (slice xs i j).length) :
+    (slice xs i j).getD z 0 = xs.getD (i.toNat + z) 0 := by
+  have hlen := slice_length_le xs i j hi
+  have hci : pyClamp xs.length i = i.toNat := by
+    unfold pyClamp; rw [if_neg (by omega)]; omega
+  unfold slice at hz ⊢
+  rw [hci] at hz ⊢
+  simp only [List.length_drop, List.length_take] at hz
+  simp only [List.getD_eq_getElem?_getD, List.getElem?_drop]
+  rw [List.getElem?_take_of_lt (by omega)]
+
+/-- a genuine crossing of a window is a genuine crossing of the recording, at the window's offset -/
+theorem genuine_of_slice (xs : List Int) (i j : Int) (hi : 0 ≤ i) (z : Nat) (h : Genuine (slice xs i j) z) :
+    Genuine xs (i.toNat + z) := by
+  obtain ⟨hz, hc⟩ := h
+  have hlen := slice_length_le xs i j hi
+  refine ⟨by omega, ?_⟩
+  rw [slice_getD xs i j hi z hz] at hc
+  rcases hc with h0 | ⟨h1, h2⟩ | ⟨h1, h2⟩
+  · exact Or.inl h0
+  · rw [slice_getD xs i j hi (z + 1) h1] at h2
+    exact Or.inr (Or.inl ⟨by omega, h2⟩)
+  · rw [slice_getD xs i j hi (z - 1) (by omega)] at h2
+    refine Or.inr (Or.inr ⟨by omega, ?_⟩)
+    have e : i.toNat + z - 1 = i.toNat + (z - 1) := by omega
+    rw [e]; exact h2
+
+theorem mem_of_mem_slice (xs : List Int) (i j : Int) (x : Int) (h : x ∈ slice xs i j) : x ∈ xs := by
+  unfold slice at h
+  exact List.mem_of_mem_take (List.mem_of_mem_drop h)
+
+/-! ## 5. one window of the search -/
+
+theorem getInterval_fst (start d mx : Int) (rev : Bool) :
+    (getInterval start d mx rev).1 = if (if rev = true then start - d else start) < 0 then 0
+      else (if rev = true then start - d else start) := by
+  unfold getInterval
+  cases rev <;> simp only [Bool.false_eq_true, if_false, if_true] <;> split <;> (try split) <;> rfl
+
+theorem getInterval_fst_nonneg (start d mx : Int) (rev : Bool) : 0 ≤ (getInterval start d mx rev).1 := by
+  rw [getInterval_fst]
+  split <;> omega
+
+theorem getInterval_fst_dvd (k start d mx : Int) (rev : Bool) (h1 : k ∣ start) (h2 : k ∣ d) :
+    k ∣ (getInterval start d mx rev).1 := by
+  rw [getInterval_fst]
+  have hs : k ∣ (if rev = true then start - d else start) := by
+    split
+    · exact Int.dvd_sub h1 h2
+    · exact h1
+  generalize (if rev = true then start - d else start) = s0 at hs ⊢
+  split
+  · exact Int.dvd_zero k
+  · exact hs
+
+/-- what a window of the search can return: `start + z` samples, where sample `round(start·rate) + z`
+of the recording is a genuine crossing (`start ≥ 0` is the clamped start of the window) -/
+def Cand (m : Nat) (xs : List Int) (t : Int) : Prop :=
+  ∃ s : Int, ∃ z : Nat, 0 ≤ s ∧ t = s + (z : Int) * (m : Int) ∧ Genuine xs ((roundHalfEven s m).toNat + z)
+
+/-- the same with the window start on a sample position `k` (which divides `m`-tick times) -/
+def CandOn (k : Int) (m : Nat) (xs : List Int) (t : Int) : Prop :=
+  ∃ s : Int, ∃ z : Nat, 0 ≤ s ∧ k ∣ s ∧ t = s + (z : Int) * (m : Int) ∧ Genuine xs ((roundHalfEven s m).toNat + z)
+
+theorem iter_list (m : Nat) (hm : 0 < m) (xs : List Int) (dur start : Int) (within : Bool) (step : Int) (rev : Bool) :
+    ∃ o, iterZeroCrossings (listReader m xs) m dur start within step rev = .ok o ∧
+      (∀ t, o = some t → ∃ z : Nat, t = (getInterval start step dur rev).1 + (z : Int) * (m : Int) ∧
+          Genuine xs ((roundHalfEven (getInterval start step dur rev).1 m).toNat + z)) := by
+  unfold iterZeroCrossings
+  cases within with
+  | false => exact ⟨none, rfl, by intro t ht; cases ht⟩
+  | true =>
+    simp only [Bool.not_true, Bool.false_eq_true, if_false, listReader]
+    refine ⟨_, rfl, ?_⟩
+    intro t ht
+    unfold findNextZeroCrossing at ht
+    cases hn : nextIdx (slice xs (roundHalfEven (getInterval start step dur rev).1 m)
+        (roundHalfEven (getInterval start step dur rev).2 m)) rev with
+    | none => rw [hn] at ht; simp at ht
+    | some z =>
+      rw [hn] at ht
+      simp only [Option.map_some, Option.some.injEq] at ht
+      refine ⟨z, ht.symm, ?_⟩
+      have hg := crossing_genuine _ rev z hn
+      exact genuine_of_slice xs _ _
+        (C16.roundHalfEven_nonneg _ m hm (getInterval_fst_nonneg start step dur rev)) z hg
+
+theorem iter_cand (m : Nat) (hm : 0 < m) (xs : List Int) (dur start : Int) (within : Bool) (step : Int) (rev : Bool) :
+    ∃ o, iterZeroCrossings (listReader m xs) m dur start within step rev = .ok o ∧ ∀ t, o = some t → Cand m xs t := by
+  obtain ⟨o, h1, h2⟩ := iter_list m hm xs dur start within step rev
+  refine ⟨o, h1, ?_⟩
+  intro t ht
+  obtain ⟨z, hz, hg⟩ := h2 t ht
+  exact ⟨_, z, getInterval_fst_nonneg start step dur rev, hz, hg⟩
+
+theorem iter_candOn (k : Int) (m : Nat) (hm : 0 < m) (xs : List Int) (dur start : Int) (within : Bool) (step : Int) (rev : Bool)
+    (h1 : k ∣ start) (h2 : k ∣ step) :
+    ∃ o, iterZeroCrossings (listReader m xs) m dur start within step rev = .ok o ∧ ∀ t, o = some t → CandOn k m xs t := by
+  obtain ⟨o, e1, e2⟩ := iter_list m hm xs dur start within step rev
+  refine ⟨o, e1, ?_⟩
+  intro t ht
+  obtain ⟨z, hz, hg⟩ := e2 t ht
+  exact ⟨_, z, getInterval_fst_nonneg start step dur rev, getInterval_fst_dvd k start step dur rev h1 h2, hz, hg⟩
+
+/-- one round on a plain sample list never raises, and both candidates are crossings -/
+theorem round_list (m : Nat) (hm : 0 < m) (xs : List Int) (dur step a b : Int) :
+    ∃ l r, Zero.round (listReader m xs) m dur step a b = .ok (l, r) ∧
+      (∀ t, l = some t → Cand m xs t) ∧ (∀ t, r = some t → Cand m xs t) := by
+  obtain ⟨l, hl, hlc⟩ := iter_cand m hm xs dur a (decide (0 < a)) (step + m) true
+  obtain ⟨r, hr, hrc⟩ := iter_cand m hm xs dur b (decide (b + step < dur)) (step + m) false
+  refine ⟨l, r, ?_, hlc, hrc⟩
+  unfold Zero.round; rw [hl]; simp only; rw [hr]
+
+theorem round_list_on (k : Int) (m : Nat) (hm : 0 < m) (xs : List Int) (dur step a b : Int)
+    (hk : k ∣ (m : Int)) (hs : k ∣ step) (ha : k ∣ a) (hb : k ∣ b) :
+    ∃ l r, Zero.round (listReader m xs) m dur step a b = .ok (l, r) ∧
+      (∀ t, l = some t → CandOn k m xs t) ∧ (∀ t, r = some t → CandOn k m xs t) := by
+  obtain ⟨l, hl, hlc⟩ := iter_candOn k m hm xs dur a (decide (0 < a)) (step + m) true ha (Int.dvd_add hs hk)
+  obtain ⟨r, hr, hrc⟩ := iter_candOn k m hm xs dur b (decide (b + step < dur)) (step + m) false hb (Int.dvd_add hs hk)
+  refine ⟨l, r, ?_, hlc, hrc⟩
+  unfold Zero.round; rw [hl]; simp only; rw [hr]
+
+/-! ## 6. (f) `chooseClosestTime` -/
+
+/-- **closest**: the value returned is one of the candidates, no candidate is closer to the target,
+and on a tie the first (left) candidate wins -/
+theorem chooseClosest_spec (target : Int) (a b : Option Int) (r : Int) (h : chooseClosestTime target a b = .ok r) :
+    (a = some r ∨ b = some r) ∧
+    (∀ x, a = some x → (r - target).natAbs ≤ (x - target).natAbs) ∧
+    (∀ x, b = some x → (r - target).natAbs ≤ (x - target).natAbs) ∧
+    (∀ x y, a = some x → b = some y → (x - target).natAbs = (y - target).natAbs → r = x) := by
+  cases a with
+  | none =>
+    cases b with
+    | none => simp [chooseClosestTime] at h
+    | some y =>
+      simp only [chooseClosestTime, Except.ok.injEq] at h
+      subst h; simp
+  | some x =>
+    cases b with
+    | none =>
+      simp only [chooseClosestTime, Except.ok.injEq] at h
+      subst h; simp
+    | some y =>
+      simp only [chooseClosestTime] at h
+      split at h
+      · simp only [Except.ok.injEq] at h; subst h
+        refine ⟨Or.inl rfl, ?_, ?_, ?_⟩
+        · intro x' hx'; cases hx'; exact Nat.le_refl _
+        · intro y' hy'; cases hy'; assumption
+        · intro x' y' hx' _ _; cases hx'; rfl
+      · simp only [Except.ok.injEq] at h; subst h
+        refine ⟨Or.inr rfl, ?_, ?_, ?_⟩
+        · intro x' hx'; cases hx'; omega
+        · intro y' hy'; cases hy'; exact Nat.le_refl _
+        · intro x' y' hx' hy' he; cases hx'; cases hy'; omega
+
+theorem chooseClosest_ok_of_some (target : Int) (a b : Option Int) (h : (a.isSome || b.isSome) = true) :
+    ∃ r, chooseClosestTime target a b = .ok r := by
+  cases a with
+  | none =>
+    cases b with
+    | none => simp at h
+    | some y => exact ⟨y, rfl⟩
+  | some x =>
+    cases b with
+    | none => exact ⟨x, rfl⟩
+    | some y =>
+      simp only [chooseClosestTime]
+      split
+      · exact ⟨x, rfl⟩
+      · exact ⟨y, rfl⟩
+
+/-- no candidate on either side is the only way to `ArgumentError` (the loop never calls it so) -/
+theorem chooseClosest_error (target : Int) (a b : Option Int) (e : Err) (h : chooseClosestTime target a b = .error e) :
+    a = none ∧ b = none ∧ e = .ArgumentError := by
+  cases a with
+  | none =>
+    cases b with
+    | none => simp only [chooseClosestTime, Except.error.injEq] at h; exact ⟨rfl, rfl, h.symm⟩
+    | some y => simp [chooseClosestTime] at h
+  | some x =>
+    cases b with
+    | none => simp [chooseClosestTime] at h
+    | some y => simp only [chooseClosestTime] at h; split at h <;> cases h
+
+/-! ## 7. the loop: what it returns -/
+
+/-- a value returned by the loop is the choice between the two candidates of some round whose cursors
+satisfy every invariant of the cursor update -/
+theorem loop_ok_inv (rd : Reader) (m : Nat) (dur target step : Int) (Inv : Int → Int → Prop)
+    (hstep : ∀ a b, Inv a b → Inv (a - step) (b + step)) (t : Int) :
+    ∀ fuel left right, Inv left right → loop rd m dur target step fuel left right = some (.ok t) →
+      ∃ a b l r, Inv a b ∧ Zero.round rd m dur step a b = .ok (l, r) ∧ (l.isSome || r.isSome) = true ∧
+        chooseClosestTime target l r = .ok t := by
+  intro fuel
+  induction fuel with
+  | zero => intro left right _ h; simp [loop] at h
+  | succ f ih =>
+    intro left right hinv h
+    unfold loop at h
+    cases hr : Zero.round rd m dur step left right with
+    | error e => rw [hr] at h; simp at h
+    | ok p =>
+      obtain ⟨l, r⟩ := p
+      rw [hr] at h
+      simp only at h
+      by_cases hs : (l.isSome || r.isSome) = true
+      · rw [if_pos hs] at h
+        simp only [Option.some.injEq] at h
+        exact ⟨left, right, l, r, hinv, hr, hs, h⟩
+      · rw [if_neg hs] at h
+        by_cases hx : left < 0 ∧ dur < right
+        · rw [if_pos hx] at h; simp at h
+        · rw [if_neg hx] at h
+          exact ih _ _ (hstep _ _ hinv) h
+
+/-- an error returned by the loop is an error of a window read, `FindZeroCrossingError`, or never
+(`chooseClosestTime` is only called with a candidate) -/
+theorem loop_error (rd : Reader) (m : Nat) (dur target step : Int) (e : Err) :
+    ∀ fuel left right, loop rd m dur target step fuel left right = some (.error e) →
+      e = .FindZeroCrossingError ∨ ∃ a b, Zero.round rd m dur step a b = .error e := by
+  intro fuel
+  induction fuel with
+  | zero => intro left right h; simp [loop] at h
+  | succ f ih =>
+    intro left right h
+    unfold loop at h
+    cases hr : Zero.round rd m dur step left right with
+    | error e' =>
+      rw [hr] at h
+      simp only [Option.some.injEq, Except.error.injEq] at h
+      subst h
+      exact Or.inr ⟨left, right, hr⟩
+    | ok p =>
+      obtain ⟨l, r⟩ := p
+      rw [hr] at h
+      simp only at h
+      by_cases hs : (l.isSome || r.isSome) = true
+      · rw [if_pos hs] at h
+        obtain ⟨v, hv⟩ := chooseClosest_ok_of_some target l r hs
+        rw [hv] at h; simp at h
+      · rw [if_neg hs] at h
+        by_cases hx : left < 0 ∧ dur < right
+        · rw [if_pos hx] at h
+          simp only [Option.some.injEq, Except.error.injEq] at h
+          exact Or.inl h.symm
+        · rw [if_neg hx] at h
+          exact ih _ _ h
+
+/-! ## 8. (b) search_terminates -/
+
+/-- more fuel never changes a result -/
+theorem loop_mono (rd : Reader) (m : Nat) (dur target step : Int) (v : Except Err Int) :
+    ∀ fuel left right, loop rd m dur target step fuel left right = some v →
+      ∀ k, loop rd m dur target step (fuel + k) left right = some v := by
+  intro fuel
+  induction fuel with
+  | zero => intro left right h; simp [loop] at h
+  | succ f ih =>
+    intro left right h k
+    have e : f + 1 + k = (f + k) + 1 := by omega
+    rw [e]
+    unfold loop at h ⊢
+    cases hr : Zero.round rd m dur step left right with
+    | error e' => rw [hr] at h; exact h
+    | ok p =>
+      obtain ⟨l, r⟩ := p
+      rw [hr] at h
+      simp only at h ⊢
+      by_cases hs : (l.isSome || r.isSome) = true
+      · rw [if_pos hs] at h ⊢; exact h
+      · rw [if_neg hs] at h ⊢
+        by_cases hx : left < 0 ∧ dur < right
+        · rw [if_pos hx] at h ⊢; exact h
+        · rw [if_neg hx] at h ⊢
+          exact ih _ _ h k
+
+/-- the termination measure: with `fuel` rounds left the loop certainly leaves if the left cursor is
+below `(fuel-1)·step` and the right cursor within `(fuel-1)·step` of the end -/
+theorem loop_terminates (rd : Reader) (m : Nat) (dur target step : Int) :
+    ∀ (fuel : Nat) (left right : Int), left < (fuel : Int) * step → dur - right < (fuel : Int) * step →
+      loop rd m dur target step (fuel + 1) left right ≠ none := by
+  intro fuel
+  induction fuel with
+  | zero =>
+    intro left right h1 h2
+    simp only [Int.natCast_zero, Int.zero_mul] at h1 h2
+    unfold loop
+    cases hr : Zero.round rd m dur step left right with
+    | error e' => simp
+    | ok p =>
+      obtain ⟨l, r⟩ := p
+      simp only
+      by_cases hs : (l.isSome || r.isSome) = true
+      · rw [if_pos hs]; simp
+      · rw [if_neg hs, if_pos ⟨h1, by omega⟩]; simp
+  | succ f ih =>
+    intro left right h1 h2
+    unfold loop
+    cases hr : Zero.round rd m dur step left right with
+    | error e' => simp
+    | ok p =>
+      obtain ⟨l, r⟩ := p
+      simp only
+      by_cases hs : (l.isSome || r.isSome) = true
+      · rw [if_pos hs]; simp
+      · rw [if_neg hs]
+        by_cases hx : left < 0 ∧ dur < right
+        · rw [if_pos hx]; simp
+        · rw [if_neg hx]
+          have e : ((f + 1 : Nat) : Int) * step = (f : Int) * step + step := by
+            rw [Int.natCast_add, Int.add_mul]; simp
+          rw [e] at h1 h2
+          exact ih _ _ (by omega) (by omega)
+
+theorem searchBound_spec (dur target step : Int) (hs : 0 < step) :
+    ∃ f : Nat, searchBound dur target step = f + 1 ∧ target < (f : Int) * step ∧ dur - target < (f : Int) * step := by
+  unfold searchBound
+  refine ⟨((max (max target (dur - target)) 0) / step).toNat + 1, rfl, ?_⟩
+  generalize hM : max (max target (dur - target)) 0 = M
+  have hM0 : 0 ≤ M := by omega
+  have hq : 0 ≤ M / step := Int.ediv_nonneg hM0 (by omega)
+  have hlt : M < step * (M / step) + step := Int.lt_mul_ediv_self_add hs
+  have e : (((M / step).toNat + 1 : Nat) : Int) * step = step * (M / step) + step := by
+    rw [Int.natCast_add, Int.toNat_of_nonneg hq, Int.add_mul, Int.mul_comm]; simp
+  rw [e]
+  omega
+
+/-- **search_terminates**: for every reader, recording, target and step the loop leaves within
+`searchBound dur target step = max(target, dur - target, 0) / step + 2` rounds: the fuelled function
+with at least that much fuel never runs out of fuel and returns what `search` returns -/
+theorem search_terminates (rd : Reader) (m : Nat) (hm : 0 < m) (dur target step : Int) (n : Nat)
+    (hn : searchBound dur target step ≤ n) :
+    findFuel rd m dur target step n = some (search rd m dur target step) := by
+  have key : ∀ n, searchBound dur target step ≤ n → ∃ v, findFuel rd m dur target step n = some v := by
+    intro n hn
+    unfold findFuel
+    by_cases hs : step < 2 * (m : Int)
+    · rw [if_pos hs]; exact ⟨_, rfl⟩
+    · rw [if_neg hs]
+      obtain ⟨f, hf, h1, h2⟩ := searchBound_spec dur target step (by omega)
+      have hne := loop_terminates rd m dur target step f target target h1 h2
+      cases hl : loop rd m dur target step (f + 1) target target with
+      | none => exact absurd hl hne
+      | some v =>
+        have := loop_mono rd m dur target step v (f + 1) target target hl (n - (f + 1))
+        have e : f + 1 + (n - (f + 1)) = n := by omega
+        rw [e] at this
+        exact ⟨v, this⟩
+  obtain ⟨v0, hv0⟩ := key _ (Nat.le_refl _)
+  obtain ⟨v, hv⟩ := key n hn
+  have hsearch : search rd m dur target step = v0 := by unfold search; rw [hv0]
+  rw [hsearch, hv]
+  -- both are the same value: more fuel does not change a result
+  unfold findFuel at hv hv0
+  by_cases hs : step < 2 * (m : Int)
+  · rw [if_pos hs] at hv hv0; rw [← hv, ← hv0]
+  · rw [if_neg hs] at hv hv0
+    have := loop_mono rd m dur target step v0 _ target target hv0 (n - searchBound dur target step)
+    have e : searchBound dur target step + (n - searchBound dur target step) = n := by omega
+    rw [e, hv] at this
+    exact this
+
+/-- the search as a fact about the loop: it is the loop's value for every sufficient fuel -/
+theorem search_eq_loop (rd : Reader) (m : Nat) (hm : 0 < m) (dur target step : Int) (hs : 2 * (m : Int) ≤ step) :
+    loop rd m dur target step (searchBound dur target step) target target = some (search rd m dur target step) := by
+  have := search_terminates rd m hm dur target step _ (Nat.le_refl _)
+  unfold findFuel at this
+  rw [if_neg (by omega)] at this
+  exact this
+
+
+/-! ## 9. the search on a recording (plain sample list): what it returns -/
+
+/-- the duration of the list in ticks -/
+abbrev durOf (m : Nat) (xs : List Int) : Int := (xs.length : Int) * (m : Int)
+
+theorem searchList_small_step (m : Nat) (xs : List Int) (target step : Int) (h : step < 2 * (m : Int)) :
+    searchList m xs target step = .error .ArgumentError := by
+  unfold searchList search findFuel
+  rw [if_pos h]
+
+theorem searchList_loop (m : Nat) (hm : 0 < m) (xs : List Int) (target step : Int) (hs : 2 * (m : Int) ≤ step) :
+    loop (listReader m xs) m (durOf m xs) target step (searchBound (durOf m xs) target step) target target =
+      some (searchList m xs target step) :=
+  search_eq_loop (listReader m xs) m hm (durOf m xs) target step hs
+
+/-- a value returned by the search is the choice between the two candidates of one round -/
+theorem searchList_ok (m : Nat) (hm : 0 < m) (xs : List Int) (target step t : Int)
+    (Inv : Int → Int → Prop) (h0 : Inv target target) (hstep : ∀ a b, Inv a b → Inv (a - step) (b + step))
+    (h : searchList m xs target step = .ok t) :
+    2 * (m : Int) ≤ step ∧
+    ∃ a b l r, Inv a b ∧ Zero.round (listReader m xs) m (durOf m xs) step a b = .ok (l, r) ∧
+      (l.isSome || r.isSome) = true ∧ chooseClosestTime target l r = .ok t := by
+  by_cases hs : step < 2 * (m : Int)
+  · rw [searchList_small_step m xs target step hs] at h; cases h
+  · have hs' : 2 * (m : Int) ≤ step := by omega
+    refine ⟨hs', ?_⟩
+    have hl := searchList_loop m hm xs target step hs'
+    rw [h] at hl
+    exact loop_ok_inv _ m _ target step Inv hstep t _ target target h0 hl
+
+/-- **closest**: the value returned is the closer of the two candidates found in the first round that
+finds anything (a tie goes to the left one) -/
+theorem search_closest (m : Nat) (hm : 0 < m) (xs : List Int) (target step t : Int)
+    (h : searchList m xs target step = .ok t) :
+    ∃ a b l r, Zero.round (listReader m xs) m (durOf m xs) step a b = .ok (l, r) ∧
+      (l = some t ∨ r = some t) ∧
+      (∀ x, l = some x → (t - target).natAbs ≤ (x - target).natAbs) ∧
+      (∀ x, r = some x → (t - target).natAbs ≤ (x - target).natAbs) ∧
+      (∀ x y, l = some x → r = some y → (x - target).natAbs = (y - target).natAbs → t = x) := by
+  obtain ⟨_, a, b, l, r, _, hr, _, hc⟩ :=
+    searchList_ok m hm xs target step t (fun _ _ => True) trivial (fun _ _ _ => trivial) h
+  exact ⟨a, b, l, r, hr, chooseClosest_spec target l r t hc⟩
+
+/-- the value returned is `start + z` samples for a window start `start ≥ 0`, and sample
+`round(start·rate) + z` of the recording is a genuine crossing -/
+theorem search_cand (m : Nat) (hm : 0 < m) (xs : List Int) (target step t : Int)
+    (h : searchList m xs target step = .ok t) : Cand m xs t := by
+  obtain ⟨_, a, b, l, r, _, hr, _, hc⟩ :=
+    searchList_ok m hm xs target step t (fun _ _ => True) trivial (fun _ _ _ => trivial) h
+  obtain ⟨l', r', hr', hl', hrr'⟩ := round_list m hm xs (durOf m xs) step a b
+  rw [hr] at hr'
+  simp only [Except.ok.injEq, Prod.mk.injEq] at hr'
+  obtain ⟨rfl, rfl⟩ := hr'
+  rcases (chooseClosest_spec target l r t hc).1 with h1 | h1
+  · exact hl' t h1
+  · exact hrr' t h1
+
+theorem cand_range (m : Nat) (hm : 0 < m) (xs : List Int) (t : Int) (h : Cand m xs t) :
+    0 ≤ t ∧ t < durOf m xs := by
+  obtain ⟨s, z, hs, ht, hg⟩ := h
+  have hq0 := C16.roundHalfEven_nonneg s m hm hs
+  have hspec := C16.roundHalfEven_spec s m hm
+  unfold C16.IsRoundHalfEven at hspec
+  generalize roundHalfEven s m = q at *
+  have hlt : q.toNat + z < xs.length := hg.1
+  have hzm : 0 ≤ (z : Int) * (m : Int) := Int.mul_nonneg (by omega) (by omega)
+  refine ⟨by omega, ?_⟩
+  have hle : (q + z + 1) * (m : Int) ≤ (xs.length : Int) * (m : Int) :=
+    Int.mul_le_mul_of_nonneg_right (by omega) (by omega)
+  rw [Int.add_mul, Int.add_mul, Int.one_mul] at hle
+  show t < (xs.length : Int) * (m : Int)
+  omega
+
+/-- **result_in_range**: whatever the target and the step, a value returned lies in `[0, duration]`
+(indeed strictly before the end: it addresses an existing sample) -/
+theorem result_in_range (m : Nat) (hm : 0 < m) (xs : List Int) (target step t : Int)
+    (h : searchList m xs target step = .ok t) : 0 ≤ t ∧ t ≤ durOf m xs := by
+  have := cand_range m hm xs t (search_cand m hm xs target step t h)
+  omega
+
+/-- the crossing behind a returned value, for arbitrary targets and steps -/
+theorem result_genuine_general (m : Nat) (hm : 0 < m) (xs : List Int) (target step t : Int)
+    (h : searchList m xs target step = .ok t) :
+    ∃ s : Int, ∃ z : Nat, 0 ≤ s ∧ t = s + (z : Int) * (m : Int) ∧ Genuine xs ((roundHalfEven s m).toNat + z) :=
+  search_cand m hm xs target step t h
+
+/-- **result_on_grid** (partial: the property asks it for every step of at least two samples; that is
+false for steps that are not a whole number of samples, see `result_on_grid_counterexample`) + genuine
+crossing: when the target is a sample position and the step a whole
+number of samples, the value returned is a sample position `k·m`, and sample `k` of the recording
+is zero or differs in sign from a neighbour -/
+theorem result_on_grid_partial (m : Nat) (hm : 0 < m) (xs : List Int) (target step t : Int)
+    (htarget : (m : Int) ∣ target) (hwhole : (m : Int) ∣ step)
+    (h : searchList m xs target step = .ok t) :
+    (m : Int) ∣ t ∧ Genuine xs (t / (m : Int)).toNat := by
+  obtain ⟨_, a, b, l, r, ⟨ha, hb⟩, hr, _, hc⟩ :=
+    searchList_ok m hm xs target step t (fun a b => (m : Int) ∣ a ∧ (m : Int) ∣ b) ⟨htarget, htarget⟩
+      (fun a b h => ⟨Int.dvd_sub h.1 hwhole, Int.dvd_add h.2 hwhole⟩) h
+  obtain ⟨l', r', hr', hl', hrr'⟩ := round_list_on (m : Int) m hm xs (durOf m xs) step a b (Int.dvd_refl _) hwhole ha hb
+  rw [hr] at hr'
+  simp only [Except.ok.injEq, Prod.mk.injEq] at hr'
+  obtain ⟨rfl, rfl⟩ := hr'
+  have hcand : CandOn (m : Int) m xs t := by
+    rcases (chooseClosest_spec target l r t hc).1 with h1 | h1
+    · exact hl' t h1
+    · exact hrr' t h1
+  obtain ⟨s, z, hs0, ⟨c, hc'⟩, ht, hg⟩ := hcand
+  have hmpos : (0 : Int) < m := by omega
+  have hsm : s = c * (m : Int) := by rw [hc', Int.mul_comm]
+  have hc0 : 0 ≤ c := by
+    by_cases hc0 : 0 ≤ c
+    · exact hc0
+    · exfalso
+      have : (c + 1) * (m : Int) ≤ 0 * (m : Int) := Int.mul_le_mul_of_nonneg_right (by omega) (by omega)
+      rw [Int.add_mul, Int.one_mul, Int.zero_mul] at this
+      omega
+  have hrhe : roundHalfEven s m = c := by rw [hsm]; exact C16.roundHalfEven_exact c m hm
+  have htm : t = (c + z) * (m : Int) := by rw [ht, hsm, Int.add_mul]
+  refine ⟨⟨c + z, by rw [htm, Int.mul_comm]⟩, ?_⟩
+  have hdiv : t / (m : Int) = c + z := by rw [htm]; exact Int.mul_ediv_cancel _ (by omega)
+  rw [hdiv]
+  rw [hrhe] at hg
+  have e : (c + (z : Int)).toNat = c.toNat + z := by omega
+  rw [e]; exact hg
+
+/-- **A6, proved counter-example**: with a step that is not a whole number of samples the result leaves
+the sample grid although the target is on it (`m = 2`: ticks are half samples; step 5 ticks = 2.5
+samples; target 0; result 7 ticks = sample position 3.5).  Replayed on the code: rate 8, samples
+`[5,3,2,1,-1,-4]`, `findNearestZeroCrossing(0.0, 0.3125) = 0.4375`. -/
+theorem result_on_grid_counterexample :
+    searchList 2 [5, 3, 2, 1, -1, -4] 0 5 = .ok 7 ∧ ¬ ((2 : Int) ∣ 7) := by decide
+
+/-! ## 10. (e) errors_documented -/
+
+/-- **errors_documented**: on a recording of whole samples the search raises `ArgumentError` exactly when
+the step is shorter than two samples, and otherwise nothing but `FindZeroCrossingError` -/
+theorem errors_documented (m : Nat) (hm : 0 < m) (xs : List Int) (target step : Int) (e : Err)
+    (h : searchList m xs target step = .error e) :
+    (step < 2 * (m : Int) ∧ e = .ArgumentError) ∨ (2 * (m : Int) ≤ step ∧ e = .FindZeroCrossingError) := by
+  by_cases hs : step < 2 * (m : Int)
+  · rw [searchList_small_step m xs target step hs] at h
+    cases h; exact Or.inl ⟨hs, rfl⟩
+  · have hs' : 2 * (m : Int) ≤ step := by omega
+    refine Or.inr ⟨hs', ?_⟩
+    have hl := searchList_loop m hm xs target step hs'
+    rw [h] at hl
+    rcases loop_error _ m _ target step e _ target target hl with h1 | ⟨a, b, h1⟩
+    · exact h1
+    · obtain ⟨l, r, hr, _⟩ := round_list m hm xs (durOf m xs) step a b
+      rw [hr] at h1; cases h1
+
+/-- a recording without a zero sample whose samples all have the same sign -/
+def Flat (xs : List Int) : Prop := (0 : Int) ∉ xs ∧ ∀ a ∈ xs, ∀ b ∈ xs, sign a = sign b
+
+theorem flat_of_pos (xs : List Int) (h : ∀ x ∈ xs, 0 < x) : Flat xs := by
+  refine ⟨fun h0 => by have := h 0 h0; omega, ?_⟩
+  intro a ha b hb
+  have h1 := h a ha; have h2 := h b hb
+  unfold sign; rw [if_pos h1, if_pos h2]
+
+theorem flat_of_neg (xs : List Int) (h : ∀ x ∈ xs, x < 0) : Flat xs := by
+  refine ⟨fun h0 => by have := h 0 h0; omega, ?_⟩
+  intro a ha b hb
+  have h1 := h a ha; have h2 := h b hb
+  unfold sign; rw [if_neg (by omega), if_pos h1, if_neg (by omega), if_pos h2]
+
+theorem iter_flat (m : Nat) (xs : List Int) (hf : Flat xs) (dur start : Int) (within : Bool) (step : Int) (rev : Bool) :
+    iterZeroCrossings (listReader m xs) m dur start within step rev = .ok none := by
+  unfold iterZeroCrossings
+  cases within with
+  | false => rfl
+  | true =>
+    simp only [Bool.not_true, Bool.false_eq_true, if_false, listReader]
+    unfold findNextZeroCrossing
+    rw [nextIdx_none]
+    · rfl
+    · intro h0; exact hf.1 (mem_of_mem_slice xs _ _ 0 h0)
+    · intro a ha b hb; exact hf.2 a (mem_of_mem_slice xs _ _ a ha) b (mem_of_mem_slice xs _ _ b hb)
+
+theorem round_flat (m : Nat) (xs : List Int) (hf : Flat xs) (dur step a b : Int) :
+    Zero.round (listReader m xs) m dur step a b = .ok (none, none) := by
+  unfold Zero.round
+  rw [iter_flat m xs hf]; simp only; rw [iter_flat m xs hf]
+
+/-- **no crossing → the documented error**: on an all-positive (or all-negative) recording every call
+with an admissible step raises `FindZeroCrossingError`, never a value -/
+theorem no_crossing_error (m : Nat) (hm : 0 < m) (xs : List Int) (hf : Flat xs) (target step : Int)
+    (hs : 2 * (m : Int) ≤ step) :
+    searchList m xs target step = .error .FindZeroCrossingError := by
+  cases h : searchList m xs target step with
+  | ok t =>
+    exfalso
+    obtain ⟨_, a, b, l, r, _, hr, hsome, _⟩ :=
+      searchList_ok m hm xs target step t (fun _ _ => True) trivial (fun _ _ _ => trivial) h
+    rw [round_flat m xs hf] at hr
+    simp only [Except.ok.injEq, Prod.mk.injEq] at hr
+    obtain ⟨rfl, rfl⟩ := hr
+    simp at hsome
+  | error e =>
+    rcases errors_documented m hm xs target step e h with ⟨h1, _⟩ | ⟨_, h2⟩
+    · omega
+    · rw [h2]
+
+theorem all_positive_error (m : Nat) (hm : 0 < m) (xs : List Int) (hpos : ∀ x ∈ xs, 0 < x) (target step : Int)
+    (hs : 2 * (m : Int) ≤ step) : searchList m xs target step = .error .FindZeroCrossingError :=
+  no_crossing_error m hm xs (flat_of_pos xs hpos) target step hs
+
+/-! ## 11. (b, continued) A16: the number of rounds is not bounded by the recording -/
+
+theorem loop_none_flat (m : Nat) (xs : List Int) (hf : Flat xs) (dur target step : Int) (hs : 0 ≤ step) :
+    ∀ (fuel : Nat) (left right : Int), (fuel : Int) * step ≤ left + step →
+      loop (listReader m xs) m dur target step fuel left right = none := by
+  intro fuel
+  induction fuel with
+  | zero => intro left right _; rfl
+  | succ f ih =>
+    intro left right h
+    have e : ((f + 1 : Nat) : Int) * step = (f : Int) * step + step := by
+      rw [Int.natCast_add, Int.add_mul]; simp
+    rw [e] at h
+    have hf0 : 0 ≤ (f : Int) * step := Int.mul_nonneg (by omega) hs
+    unfold loop
+    rw [round_flat m xs hf]
+    simp only [Option.isSome_none, Bool.or_self, Bool.false_eq_true, if_false]
+    rw [if_neg (by omega)]
+    exact ih _ _ (by omega)
+
+/-- **search_rounds_unbounded (A16)**: the number of rounds the loop needs is not bounded in terms of
+the recording and the step: for every `N` the target `N·step` on a recording without a crossing keeps
+the loop running for more than `N` rounds (it then raises `FindZeroCrossingError`, by
+`no_crossing_error`).  The real loop needs the same `|target|/timeStep` rounds, and in binary64 it
+never leaves once `target - timeStep == target`. -/
+theorem search_rounds_unbounded (m : Nat) (xs : List Int) (hf : Flat xs) (step : Int)
+    (hs : 2 * (m : Int) ≤ step) (N : Nat) :
+    findFuel (listReader m xs) m (durOf m xs) ((N : Int) * step) step N = none := by
+  unfold findFuel
+  rw [if_neg (by omega)]
+  exact loop_none_flat m xs hf _ _ step (by omega) N _ _ (by omega)
+
+/-- for targets inside the recording the bound depends on duration and step only -/
+theorem searchBound_inside (dur target step : Int) (hs : 0 < step) (h0 : 0 ≤ target) (h1 : target ≤ dur) :
+    searchBound dur target step ≤ (dur / step).toNat + 2 := by
+  unfold searchBound
+  have : (max (max target (dur - target)) 0) / step ≤ dur / step :=
+    Int.ediv_le_ediv hs (by omega)
+  omega
+
+/-! ## 12. (e, continued) an all-zero recording -/
+
+/-- **all_zero**: on an all-zero recording a target on a sample position with room for one step to its
+right is returned itself -/
+theorem all_zero_target (m : Nat) (hm : 0 < m) (xs : List Int) (hz : ∀ x ∈ xs, x = 0) (k step : Int)
+    (hk : 0 ≤ k) (hs : 2 * (m : Int) ≤ step) (hroom : k * (m : Int) + step < durOf m xs) :
+    searchList m xs (k * (m : Int)) step = .ok (k * (m : Int)) := by
+  have hmpos : (0 : Int) < m := by omega
+  have hkm : 0 ≤ k * (m : Int) := Int.mul_nonneg hk (by omega)
+  have hkn : k < xs.length := by
+    have h1 : k * (m : Int) < (xs.length : Int) * (m : Int) := by
+      have : k * (m : Int) + step < (xs.length : Int) * (m : Int) := hroom
+      omega
+    exact Int.lt_of_mul_lt_mul_right h1 (by omega)
+  -- the right window of the first round starts at the target and is not empty
+  have hright : iterZeroCrossings (listReader m xs) m (durOf m xs) (k * (m : Int))
+      (decide (k * (m : Int) + step < durOf m xs)) (step + m) false = .ok (some (k * (m : Int))) := by
+    unfold iterZeroCrossings
+    rw [decide_eq_true hroom]
+    simp only [Bool.not_true, Bool.false_eq_true, if_false, listReader]
+    have hfst : (getInterval (k * (m : Int)) (step + m) (durOf m xs) false).1 = k * (m : Int) := by
+      rw [getInterval_fst]; simp only [Bool.false_eq_true, if_false]; rw [if_neg (by omega)]
+    have hsnd : k * (m : Int) + (m : Int) ≤ (getInterval (k * (m : Int)) (step + m) (durOf m xs) false).2 := by
+      unfold getInterval
+      simp only [Bool.false_eq_true, if_false]
+      rw [if_neg (by omega)]
+      split <;> simp only <;> omega
+    rw [hfst]
+    generalize (getInterval (k * (m : Int)) (step + m) (durOf m xs) false).2 = e at hsnd
+    have hi : roundHalfEven (k * (m : Int)) m = k := C16.roundHalfEven_exact k m hm
+    have hj : k + 1 ≤ roundHalfEven e m := by
+      have := C16.roundHalfEven_mono _ _ m hm hsnd
+      have e1 : k * (m : Int) + (m : Int) = (k + 1) * (m : Int) := by rw [Int.add_mul, Int.one_mul]
+      rw [e1, C16.roundHalfEven_exact (k + 1) m hm] at this
+      exact this
+    rw [hi]
+    generalize roundHalfEven e m = j at hj
+    -- the window is a non-empty list of zeros
+    have hlen : 0 < (slice xs k j).length := by
+      unfold slice pyClamp
+      simp only [List.length_drop, List.length_take]
+      rw [if_neg (by omega), if_neg (by omega)]
+      omega
+    cases hys : slice xs k j with
+    | nil => rw [hys] at hlen; simp at hlen
+    | cons y ys =>
+      have hy : y = 0 := hz y (mem_of_mem_slice xs k j y (by rw [hys]; simp))
+      subst hy
+      unfold findNextZeroCrossing nextIdx nearestZero find
+      simp only [Bool.false_eq_true, if_false]
+      rw [index?_head]
+      simp
+  obtain ⟨l, hl, _⟩ := iter_cand m hm xs (durOf m xs) (k * (m : Int)) (decide (0 < k * (m : Int))) (step + m) true
+  have hround : Zero.round (listReader m xs) m (durOf m xs) step (k * (m : Int)) (k * (m : Int)) =
+      .ok (l, some (k * (m : Int))) := by
+    unfold Zero.round; rw [hl]; simp only; rw [hright]
+  have hloop := searchList_loop m hm xs (k * (m : Int)) step hs
+  obtain ⟨f, hf, _, _⟩ := searchBound_spec (durOf m xs) (k * (m : Int)) step (by omega)
+  rw [hf] at hloop
+  unfold loop at hloop
+  rw [hround] at hloop
+  simp only [Option.isSome_some, Bool.or_true, if_true, Option.some.injEq] at hloop
+  obtain ⟨v, hv⟩ := chooseClosest_ok_of_some (k * (m : Int)) l (some (k * (m : Int))) (by simp)
+  have hsp := (chooseClosest_spec _ _ _ v hv).2.2.1 (k * (m : Int)) rfl
+  have hveq : v = k * (m : Int) := by omega
+  rw [← hloop, hv, hveq]
+
+
+/-! ## 13. the byte level: `Wav.getSamples` at *any* two times is a Python slice of the sample list -/
+
+theorem pyClamp_mul (n w : Nat) (hw : 0 < w) (i : Int) : pyClamp (n * w) (i * (w : Int)) = pyClamp n i * w := by
+  have hwpos : (0 : Int) < w := by omega
+  unfold pyClamp
+  by_cases hi : i < 0
+  · have hiw : i * (w : Int) < 0 := Int.mul_neg_of_neg_of_pos hi hwpos
+    rw [if_pos hi, if_pos hiw]
+    have e : i * (w : Int) + ((n * w : Nat) : Int) = (i + n) * (w : Int) := by
+      rw [Int.natCast_mul, Int.add_mul]
+    rw [e]
+    by_cases h0 : 0 ≤ i + (n : Int)
+    · obtain ⟨a, ha⟩ := Int.eq_ofNat_of_zero_le h0
+      rw [ha, ← Int.natCast_mul, Int.toNat_natCast, Int.toNat_natCast]
+    · have hneg : (i + (n : Int)) * (w : Int) < 0 := Int.mul_neg_of_neg_of_pos (by omega) hwpos
+      have e1 : ((i + (n : Int)) * (w : Int)).toNat = 0 := by omega
+      have e2 : (i + (n : Int)).toNat = 0 := by omega
+      rw [e1, e2, Nat.zero_mul]
+  · have hiw : ¬ i * (w : Int) < 0 := by
+      have : 0 ≤ i * (w : Int) := Int.mul_nonneg (by omega) (by omega)
+      omega
+    rw [if_neg hi, if_neg hiw]
+    obtain ⟨a, ha⟩ := Int.eq_ofNat_of_zero_le (show 0 ≤ i by omega)
+    rw [ha, ← Int.natCast_mul, Int.toNat_natCast, Int.toNat_natCast, Nat.mul_min_mul_right]
+
+theorem pyClamp_le (n : Nat) (i : Int) : pyClamp n i ≤ n := by
+  unfold pyClamp; split <;> omega
+
+/-- unpacking a slice of whole-sample bytes at aligned (arbitrary, also negative or overshooting)
+indices is the same slice of the samples -/
+theorem unpack_slice (w : Nat) (hw : 0 < w) (f : List UInt8) (n : Nat) (hf : f.length = n * w) (i j : Int) :
+    unpack w (slice f (i * (w : Int)) (j * (w : Int))) = slice (unpack w f) i j ∧
+    (slice f (i * (w : Int)) (j * (w : Int))).length % w = 0 := by
+  have hlen : (unpack w f).length = n := by rw [C16.unpack_length, hf, Nat.mul_div_cancel _ hw]
+  unfold slice
+  rw [hlen, hf, pyClamp_mul n w hw i, pyClamp_mul n w hw j]
+  have ha := pyClamp_le n i
+  have hb := pyClamp_le n j
+  generalize pyClamp n i = a at *
+  generalize pyClamp n j = b at *
+  have hbl : b * w ≤ f.length := by rw [hf]; exact Nat.mul_le_mul_right w hb
+  have htl : (f.take (b * w)).length = b * w := by simp [List.length_take]; omega
+  constructor
+  · by_cases hab : a ≤ b
+    · have : a * w ≤ (f.take (b * w)).length := by rw [htl]; exact Nat.mul_le_mul_right w hab
+      rw [C16.unpack_drop w a hw _ this, C16.unpack_take w b hw f hbl]
+    · have h1 : (f.take (b * w)).length ≤ a * w := by
+        rw [htl]; exact Nat.mul_le_mul_right w (by omega)
+      rw [List.drop_of_length_le h1, List.drop_of_length_le (by rw [List.length_take, hlen]; omega)]
+      simp [unpack, unpackN]
+  · simp only [List.length_drop, htl, ← Nat.sub_mul]
+    exact Nat.mul_mod_left _ _
+
+/-- **getSamples at any two times** (negative, beyond the end, reversed, off the grid) on a recording
+of whole samples is `samples[round(s·rate) : round(e·rate)]` with Python's slice semantics, and
+never raises -/
+theorem getSamples_slice (wv : Wav) (hwv : C16.Whole wv) (hk : knownWidth wv.width = true) (s e : QTime) :
+    wv.getSamples s e = .ok (slice wv.samples (sampleAtTime s wv.rate) (sampleAtTime e wv.rate)) := by
+  obtain ⟨hw, n, hn⟩ := hwv
+  have hf : wv.frames.length = n * wv.width := by rw [hn, Nat.mul_comm]
+  obtain ⟨h1, h2⟩ := unpack_slice wv.width hw wv.frames n hf (sampleAtTime s wv.rate) (sampleAtTime e wv.rate)
+  unfold Wav.getSamples convertFromBytes Wav.getFrames getB Wav.index indexAtTime Wav.samples
+  simp only [hk, Bool.not_true, Bool.false_eq_true, if_false]
+  rw [if_neg (by rw [h2]; simp), h1]
+
+/-- the sample index of the tick count `a`: `round(a/(rate·m) · rate) = round(a/m)` -/
+theorem sampleAtTime_ticks (rate m : Nat) (hr : 0 < rate) (hm : 0 < m) (a : Int) :
+    sampleAtTime ⟨a, rate * m⟩ rate = roundHalfEven a m := by
+  unfold sampleAtTime
+  simp only
+  rw [Int.mul_comm a (rate : Int)]
+  exact C16.roundHalfEven_scale a m rate hm hr
+
+/-- on a recording of whole samples the byte-level reader is the list-level reader -/
+theorem wavReader_eq (wv : Wav) (hwv : C16.Whole wv) (hk : knownWidth wv.width = true) (hr : 0 < wv.rate)
+    (m : Nat) (hm : 0 < m) : wavReader wv m = listReader m wv.samples := by
+  funext a b
+  unfold wavReader listReader
+  rw [getSamples_slice wv hwv hk, sampleAtTime_ticks wv.rate m hr hm, sampleAtTime_ticks wv.rate m hr hm]
+
+/-- **the search on an in-memory `Wav`** (bytes, any width in 1/2/4/8) is the search on its sample
+list; so every theorem above about `searchList` is a theorem about `searchWav` -/
+theorem searchWav_eq (wv : Wav) (hwv : C16.Whole wv) (hk : knownWidth wv.width = true) (hr : 0 < wv.rate)
+    (m : Nat) (hm : 0 < m) (target step : Int) :
+    searchWav wv m target step = searchList m wv.samples target step := by
+  unfold searchWav searchList
+  rw [wavReader_eq wv hwv hk hr m hm, C16.nsamples_samples]
+
+/-- the headline statement at `Wav` level: terminates (by construction, `search_terminates`), and a
+returned value lies in `[0, duration]`; with target and step on the sample grid it is a sample
+position holding a genuine crossing; the only errors are the two documented ones -/
+theorem searchWav_spec (wv : Wav) (hwv : C16.Whole wv) (hk : knownWidth wv.width = true) (hr : 0 < wv.rate)
+    (m : Nat) (hm : 0 < m) (target step : Int) :
+    (∀ t, searchWav wv m target step = .ok t →
+      0 ≤ t ∧ t ≤ (wv.nsamples : Int) * (m : Int) ∧
+      ((m : Int) ∣ target → (m : Int) ∣ step → (m : Int) ∣ t ∧ Genuine wv.samples (t / (m : Int)).toNat)) ∧
+    (∀ e, searchWav wv m target step = .error e →
+      (step < 2 * (m : Int) ∧ e = .ArgumentError) ∨ (2 * (m : Int) ≤ step ∧ e = .FindZeroCrossingError)) := by
+  rw [searchWav_eq wv hwv hk hr m hm]
+  refine ⟨?_, fun e h => errors_documented m hm _ target step e h⟩
+  intro t h
+  have hrange := result_in_range m hm _ target step t h
+  unfold durOf at hrange
+  rw [C16.nsamples_samples] at hrange
+  exact ⟨hrange.1, hrange.2, fun h1 h2 => result_on_grid_partial m hm _ target step t h1 h2 h⟩
+
+
+/-! ## 14. (h) `audioSplice`: the textgrid and the audio stay in step -/
+
+/-- what `audioSplice` (no replaced region, no alignment) does to the named tier: `insertSpace(t, d,
+'stretch')`, then `insertEntry((t, t + d, label))` with the default `collisionMode='error'` -/
+def spliceTier (t : ITier Int) (a d : Int) (label : String) : Except Err (ITier Int) := do
+  let t1 ← t.insertSpace a d .stretch
+  t1.insertEntry ⟨a, a + d, label⟩ .error
+
+theorem spaceP_nostraddle (a d : Int) (iv : Iv Int) (hno : ¬ C08.Straddles a iv) :
+    C08.spaceP a d .stretch iv = if iv.e ≤ a then [iv] else [⟨iv.s + d, iv.e + d, iv.l⟩] := by
+  unfold C08.spaceP C08.Straddles at *
+  by_cases h1 : iv.e ≤ a
+  · rw [if_pos h1, if_pos h1]
+  · rw [if_neg h1, if_neg h1, if_pos (by omega)]
+
+/-- **splice_spec (named tier)**: when no interval of the tier straddles the insertion point, the call
+succeeds and the tier then holds exactly: the entries that ended at or before the insertion point,
+unchanged; the new interval `[a, a+d]` with the given label; every later entry moved by exactly `d`
+with its label.  The tier stays well formed and its span grows by exactly `d`. -/
+theorem splice_tier_spec (t : ITier Int) (hwf : t.WF) (a d : Int) (hd : 0 < d) (hlo : t.lo ≤ a) (hhi : a ≤ t.hi)
+    (label : String) (hstr : pyStrip label = label) (hno : ∀ iv ∈ t.es, ¬ C08.Straddles a iv) :
+    ∃ t2, spliceTier t a d label = .ok t2 ∧ t2.WF ∧ t2.name = t.name ∧
+      (∀ y, y ∈ t2.es ↔ (y ∈ t.es ∧ y.e ≤ a) ∨ y = ⟨a, a + d, label⟩ ∨
+        ∃ iv ∈ t.es, a ≤ iv.s ∧ y = ⟨iv.s + d, iv.e + d, iv.l⟩) ∧
+      t2.lo = t.lo ∧ t2.hi = t.hi + d := by
+  obtain ⟨t1, e1, wf1, n1, es1, lo1, hi1⟩ := C08.insert_spec t hwf a d hd hlo .stretch (by intro h; cases h)
+  have hmem1 : ∀ y, y ∈ t1.es ↔ (y ∈ t.es ∧ y.e ≤ a) ∨ ∃ iv ∈ t.es, a ≤ iv.s ∧ y = ⟨iv.s + d, iv.e + d, iv.l⟩ := by
+    intro y
+    rw [es1, List.mem_flatMap]
+    constructor
+    · rintro ⟨iv, hiv, hy⟩
+      rw [spaceP_nostraddle a d iv (hno iv hiv)] at hy
+      by_cases h1 : iv.e ≤ a
+      · rw [if_pos h1] at hy
+        simp only [List.mem_cons, List.not_mem_nil, or_false] at hy
+        subst hy; exact Or.inl ⟨hiv, h1⟩
+      · rw [if_neg h1] at hy
+        simp only [List.mem_cons, List.not_mem_nil, or_false] at hy
+        have := hno iv hiv
+        unfold C08.Straddles at this
+        exact Or.inr ⟨iv, hiv, by omega, hy⟩
+    · rintro (⟨hy, hye⟩ | ⟨iv, hiv, hs, hy⟩)
+      · refine ⟨y, hy, ?_⟩
+        rw [spaceP_nostraddle a d y (hno y hy), if_pos hye]; simp
+      · refine ⟨iv, hiv, ?_⟩
+        have := hwf.pos iv hiv
+        rw [spaceP_nostraddle a d iv (hno iv hiv), if_neg (by omega), hy]; simp
+  have hfree : ∀ iv ∈ t1.es, iv.e ≤ (⟨a, a + d, label⟩ : Iv Int).s ∨ (⟨a, a + d, label⟩ : Iv Int).e ≤ iv.s := by
+    intro y hy
+    rcases (hmem1 y).1 hy with ⟨_, h⟩ | ⟨iv, _, hs, rfl⟩
+    · exact Or.inl h
+    · exact Or.inr (by simp only; omega)
+  obtain ⟨t2, e2, wf2, n2, mem2, lo2, hi2⟩ :=
+    C11.insert_nocollision t1 wf1 ⟨a, a + d, label⟩ (by simp only; omega) hstr .error hfree
+  refine ⟨t2, ?_, wf2, by rw [n2, n1], ?_, ?_, ?_⟩
+  · unfold spliceTier; rw [e1]; exact e2
+  · intro y
+    rw [mem2 y, hmem1 y]
+    constructor
+    · rintro ((h | h) | h)
+      · exact Or.inl h
+      · exact Or.inr (Or.inr h)
+      · exact Or.inr (Or.inl h)
+    · rintro (h | h | h)
+      · exact Or.inl (Or.inl h)
+      · exact Or.inr h
+      · exact Or.inl (Or.inr h)
+  · rw [lo2, lo1]; simp only; omega
+  · rw [hi2, hi1]; simp only; omega
+
+/-- **exactly one new interval**: if the label is not used on the tier, the new interval is the only
+entry carrying it -/
+theorem splice_one_new (t : ITier Int) (hwf : t.WF) (a d : Int) (hd : 0 < d) (hlo : t.lo ≤ a) (hhi : a ≤ t.hi)
+    (label : String) (hstr : pyStrip label = label) (hno : ∀ iv ∈ t.es, ¬ C08.Straddles a iv)
+    (hfresh : ∀ iv ∈ t.es, iv.l ≠ label) (t2 : ITier Int) (h : spliceTier t a d label = .ok t2) :
+    (⟨a, a + d, label⟩ : Iv Int) ∈ t2.es ∧ t2.es.Nodup ∧ ∀ y ∈ t2.es, y.l = label → y = ⟨a, a + d, label⟩ := by
+  obtain ⟨t2', e, wf2, _, mem2, _, _⟩ := splice_tier_spec t hwf a d hd hlo hhi label hstr hno
+  rw [h] at e
+  cases e
+  refine ⟨(mem2 _).2 (Or.inr (Or.inl rfl)), nodup_of_wf _ wf2.pos wf2.disj.setDisj, ?_⟩
+  intro y hy hl
+  rcases (mem2 y).1 hy with ⟨h1, _⟩ | h1 | ⟨iv, hiv, _, rfl⟩
+  · exact absurd hl (hfresh y h1)
+  · exact h1
+  · exact absurd hl (hfresh iv hiv)
+
+/-- an insertion point strictly inside an interval of the named tier: the stretched interval collides
+with the new entry and the call raises `CollisionError` (nothing is returned) -/
+theorem splice_tier_straddler (t : ITier Int) (hwf : t.WF) (a d : Int) (hd : 0 < d) (hlo : t.lo ≤ a)
+    (label : String) (hstr : pyStrip label = label) (iv : Iv Int) (hiv : iv ∈ t.es) (hs : C08.Straddles a iv) :
+    spliceTier t a d label = .error .CollisionError := by
+  obtain ⟨t1, e1, wf1, _, es1, _, _⟩ := C08.insert_spec t hwf a d hd hlo .stretch (by intro h; cases h)
+  have hm : (⟨iv.s, iv.e + d, iv.l⟩ : Iv Int) ∈ t1.es := by
+    rw [es1, List.mem_flatMap]
+    refine ⟨iv, hiv, ?_⟩
+    unfold C08.spaceP C08.Straddles at *
+    rw [if_neg (by omega), if_neg (by omega)]; simp
+  unfold spliceTier; rw [e1]
+  exact C11.insert_error t1 wf1 ⟨a, a + d, label⟩ (by simp only; omega) hstr _ hm
+    (by unfold C08.Straddles at hs; simp only; omega)
+
+/-! ### textgrid level -/
+
+theorem insertOne_other (name : String) (x : Iv Int) (t : AnyTier Int) (h : t.name ≠ name) :
+    insertOne name x t = .ok t := by
+  unfold insertOne
+  rw [if_neg (by simpa using h)]; rfl
+
+theorem insertOne_named (name : String) (x : Iv Int) (it : ITier Int) (h : it.name = name) :
+    insertOne name x (.I it) = .I <$> it.insertEntry x .error := by
+  unfold insertOne
+  rw [if_pos (by simpa [AnyTier.name] using h)]
+
+theorem insertOne_name {name : String} {x : Iv Int} {t t' : AnyTier Int} (h : insertOne name x t = .ok t') :
+    t'.name = t.name ∧ t'.isInterval = t.isInterval := by
+  unfold insertOne at h
+  split at h
+  · cases t with
+    | I it =>
+      obtain ⟨z, hz, rfl⟩ := C12.map_ok h
+      exact ⟨C12.insertEntry_name hz, rfl⟩
+    | P _ => cases h
+  · rw [← C12.pure_ok h]; exact ⟨rfl, rfl⟩
+
+/-- **splice_spec (textgrid)**: `audioSplice` without alignment and without a replaced region is, tier by
+tier and in order, `insertSpace(t, d, 'stretch')` followed on the named tier by the insertion of the
+new interval; tier names, order and classes are kept -/
+theorem splice_spec (g g' : Tg Int) (name label : String) (a d : Int)
+    (h : spliceTg g [] name label a none d = .ok g') :
+    ∃ g2 ts, g.insertSpace a d .stretch = .ok g2 ∧ g'.lo = g2.lo ∧ g'.hi = g2.hi ∧
+      g.tiers.mapM (·.insertSpace a d .stretch) = .ok ts ∧
+      ts.mapM (insertOne name ⟨a, a + d, label⟩) = .ok g'.tiers ∧
+      g'.names = g.names ∧ g'.tiers.map (·.isInterval) = g.tiers.map (·.isInterval) := by
+  unfold spliceTg at h
+  simp only [List.foldlM_nil, Option.getD_none, bind, Except.bind, pure, Except.pure] at h
+  cases h2 : g.insertSpace a d .stretch with
+  | error e => rw [h2] at h; cases h
+  | ok g2 =>
+    rw [h2] at h
+    simp only at h
+    unfold insertIntoTier at h
+    simp only [bind, Except.bind, pure, Except.pure] at h
+    cases hg : g2.getTier name with
+    | error e => rw [hg] at h; cases h
+    | ok tn =>
+      rw [hg] at h
+      simp only at h
+      cases hm : g2.tiers.mapM (insertOne name ⟨a, a + d, label⟩) with
+      | error e => rw [hm] at h; cases h
+      | ok ts' =>
+        rw [hm] at h
+        simp only [Except.ok.injEq] at h
+        subst h
+        have h3 := (C12.tgop_tiers g g2).2.2.1 a d .stretch h2
+        have hn1 := C12.mapM_names (·.insertSpace a d .stretch) (fun t t' h => C12.AnyTier.insertSpace_name h) _ _ h3
+        have hn2 := C12.mapM_names (insertOne name ⟨a, a + d, label⟩) (fun t t' h => insertOne_name h) _ _ hm
+        refine ⟨g2, g2.tiers, rfl, rfl, rfl, h3, hm, ?_, ?_⟩
+        · show C12.namesOf ts' = C12.namesOf g.tiers
+          rw [hn2.1, hn1.1]
+        · show ts'.map (·.isInterval) = g.tiers.map (·.isInterval)
+          rw [hn2.2, hn1.2]
+
+/-- with a replaced region the result is the same splice made at `insertStop`, followed by
+`eraseRegion(insertStart, insertStop, doShrink=True)` (whose effect on every tier is C07) -/
+theorem splice_region (g : Tg Int) (name label : String) (a b d : Int) :
+    spliceTg g [] name label a (some b) d =
+      (spliceTg g [] name label b none d >>= fun g3 => g3.eraseRegion a b true) := by
+  unfold spliceTg
+  simp only [List.foldlM_nil, Option.getD_some, Option.getD_none, bind, Except.bind, pure, Except.pure]
+  cases g.insertSpace b d .stretch with
+  | error e => rfl
+  | ok g2 =>
+    simp only
+    cases insertIntoTier g2 name ⟨b, b + d, label⟩ <;> rfl
+
+/-- folding `addTier` keeps the span end when no added tier reaches beyond it -/
+theorem foldlM_addTier_hi (f : AnyTier Int → Except Err (AnyTier Int)) (rep : Report) (H : Int) :
+    ∀ (l : List (AnyTier Int)) (acc g' : Tg Int),
+      l.foldlM (fun acc t => do let t' ← f t; acc.addTier t' none rep) acc = .ok g' →
+      acc.hi = some H → (∀ t t', t ∈ l → f t = .ok t' → t'.hi ≤ H) → g'.hi = some H := by
+  intro l
+  induction l with
+  | nil =>
+    intro acc g' h hH _
+    have : acc = g' := C12.pure_ok h
+    subst this; exact hH
+  | cons x l ih =>
+    intro acc g' h hH hle
+    rw [List.foldlM_cons] at h
+    obtain ⟨acc1, h1, h2⟩ := C12.bind_ok h
+    obtain ⟨t', h3, h4⟩ := C12.bind_ok h1
+    have hsp := (C12.addTier_span h4).2
+    rw [hH] at hsp
+    have hx := hle x t' (by simp) h3
+    have : acc1.hi = some H := by rw [hsp]; simp only; congr 1; omega
+    exact ih acc1 g' h2 this (fun t t'' ht => hle t t'' (List.mem_cons_of_mem _ ht))
+
+/-- the textgrid's own span end after `insertSpace` is the old one plus `d`, when no tier reaches
+beyond the textgrid -/
+theorem insertSpace_hi (g g2 : Tg Int) (s d H : Int) (m : SpaceMode) (hH : g.hi = some H)
+    (h : g.insertSpace s d m = .ok g2)
+    (hts : ∀ t t', t ∈ g.tiers → t.insertSpace s d m = .ok t' → t'.hi ≤ H + d) : g2.hi = some (H + d) := by
+  unfold Tg.insertSpace at h
+  exact foldlM_addTier_hi (·.insertSpace s d m) .warning (H + d) _ _ _ h (by simp [Tg.ofSpan, hH]) hts
+
+/-! ### audio side -/
+
+theorem insertB_length (f g : List UInt8) (i : Int) : (insertB f i g).length = f.length + g.length := by
+  unfold insertB sliceTo sliceFrom
+  have := pyClamp_le f.length i
+  simp only [List.length_append, List.length_take, List.length_drop]
+  omega
+
+/-- inserting the segment lengthens the audio by exactly the segment, wherever the insertion time is -/
+theorem spliceWav_length (wv : Wav) (seg : List UInt8) (a : QTime) :
+    (spliceWav wv seg a none).frames.length = wv.frames.length + seg.length := by
+  unfold spliceWav Wav.insert
+  exact insertB_length _ _ _
+
+/-- **durations agree** (no replaced region): measure time in byte durations `1/(rate·width)` s.  If the
+textgrid ends where the audio ends and `d` is the duration of the segment, then after the splice the
+textgrid again ends exactly where the audio ends. -/
+theorem splice_sync (g g' : Tg Int) (name label : String) (a : Int) (wv : Wav) (seg : List UInt8) (qa : QTime)
+    (hH : g.hi = some (wv.frames.length : Int))
+    (hts : ∀ t t', t ∈ g.tiers → t.insertSpace a (seg.length : Int) .stretch = .ok t' →
+      t'.hi ≤ (wv.frames.length : Int) + (seg.length : Int))
+    (h : spliceTg g [] name label a none (seg.length : Int) = .ok g') :
+    g'.hi = some (((spliceWav wv seg qa none).frames.length : Nat) : Int) := by
+  obtain ⟨g2, ts, h2, _, hhi, _⟩ := splice_spec g g' name label a _ h
+  rw [hhi, insertSpace_hi g g2 a _ _ .stretch hH h2 hts, spliceWav_length, Int.natCast_add]
+
+/-- the hypothesis of `splice_sync` on the tiers holds for well-formed tiers inside the textgrid's span -/
+theorem insertSpace_tier_hi (t : AnyTier Int) (t' : AnyTier Int) (a d H : Int) (hd : 0 < d)
+    (hwf : match t with | .I it => it.WF | .P pt => pt.WF) (hlo : t.lo ≤ a) (hH : t.hi ≤ H)
+    (h : t.insertSpace a d .stretch = .ok t') : t'.hi ≤ H + d := by
+  cases t with
+  | I it =>
+    obtain ⟨z, hz, rfl⟩ := C12.map_ok h
+    obtain ⟨t1, e1, _, _, _, _, hi1⟩ := C08.insert_spec it hwf a d hd hlo .stretch (by intro h; cases h)
+    rw [hz] at e1; cases e1
+    show z.hi ≤ H + d
+    rw [hi1]; have : it.hi ≤ H := hH; omega
+  | P pt =>
+    obtain ⟨z, hz, rfl⟩ := C12.map_ok h
+    obtain ⟨t1, e1, _, _, _, _, hi1⟩ := C08.pinsert_spec pt hwf a d hd hlo
+    have hz' : pt.insertSpace a d = .ok z := hz
+    rw [hz'] at e1; cases e1
+    show z.hi ≤ H + d
+    rw [hi1]; have : pt.hi ≤ H := hH; omega
+
+/-- the audio after a splice with a replaced region `[a, b]`: the samples before `a`, the segment, the
+samples from `b` on — every other sample keeps value and order -/
+theorem spliceWav_region_samples (wv : Wav) (hwv : C16.Whole wv) (seg : List UInt8) (hseg : wv.width ∣ seg.length)
+    (a b : QTime) (ha : C16.InDur wv a) (hb : C16.InDur wv b)
+    (hab : sampleAtTime a wv.rate ≤ sampleAtTime b wv.rate) :
+    (spliceWav wv seg a (some b)).samples =
+      wv.samples.take (sampleAtTime a wv.rate).toNat ++ unpack wv.width seg ++
+        wv.samples.drop (sampleAtTime b wv.rate).toNat := by
+  unfold spliceWav
+  simp only [Option.getD_some]
+  have hw1 : C16.Whole (wv.insert b seg) := ⟨hwv.1, C16.insertB_whole _ _ _ hwv.2 hseg _⟩
+  have hlen : (wv.insert b seg).frames.length = wv.frames.length + seg.length := insertB_length _ _ _
+  have hdur : ∀ t, C16.InDur wv t → C16.InDur (wv.insert b seg) t := by
+    intro t ⟨h1, h2, h3⟩
+    refine ⟨h1, h2, ?_⟩
+    have h3' : t.num * ((wv.rate * wv.width : Nat) : Int) ≤ ((wv.frames.length : Nat) : Int) * (t.den : Int) := h3
+    show t.num * (((wv.insert b seg).rate * (wv.insert b seg).width : Nat) : Int) ≤
+      (((wv.insert b seg).frames.length : Nat) : Int) * (t.den : Int)
+    rw [hlen, Int.natCast_add, Int.add_mul]
+    have : (0 : Int) ≤ (seg.length : Int) * (t.den : Int) := Int.mul_nonneg (by omega) (by omega)
+    show t.num * ((wv.rate * wv.width : Nat) : Int) ≤ _
+    omega
+  rw [C16.deleteSegment_samples _ hw1 a b (hdur a ha) (hdur b hb)]
+  show ((wv.insert b seg).samples.take (sampleAtTime a wv.rate).toNat ++
+      (wv.insert b seg).samples.drop (sampleAtTime b wv.rate).toNat) = _
+  rw [C16.insert_samples wv hwv b hb seg hseg]
+  have hbr := (C16.sample_range wv hwv b hb)
+  have har := (C16.sample_range wv hwv a ha)
+  rw [← C16.nsamples_samples] at hbr
+  generalize wv.samples = S at *
+  generalize sampleAtTime a wv.rate = i at *
+  generalize sampleAtTime b wv.rate = j at *
+  have hi : i.toNat ≤ j.toNat := by omega
+  have hj : j.toNat ≤ S.length := by omega
+  have htl : (S.take j.toNat).length = j.toNat := by rw [List.length_take]; omega
+  rw [List.append_assoc, List.take_append_of_le_length (by omega), List.take_take, Nat.min_eq_left hi,
+    List.drop_left' htl, List.append_assoc]
+
+
+/-! ## 15. (g) `tgBoundariesToZeroCrossings`: only timestamps change -/
+
+/-- a search that always returns (the abstract `zc : time → time` map) -/
+def okz (zc : Int → Int) : Int → Except Err Int := fun x => .ok (zc x)
+def mvIv (zc : Int → Int) (iv : Iv Int) : Iv Int := ⟨zc iv.s, zc iv.e, iv.l⟩
+def mvPt (zc : Int → Int) (p : Pt Int) : Pt Int := ⟨zc p.t, p.l⟩
+
+theorem mapM_pure {β γ} (f : β → γ) (l : List β) :
+    l.mapM (fun x => (Except.ok (f x) : Except Err γ)) = .ok (l.map f) := by
+  induction l with
+  | nil => rfl
+  | cons a l ih => rw [List.mapM_cons, ih]; rfl
+
+/-- the new interval tier is the tier constructor applied to the entries with `zc` applied to both
+boundaries (labels untouched) -/
+theorem zcTier_I (zc : Int → Int) (t : ITier Int) :
+    zcTier (okz zc) (.I t) = .I <$> mkITier t.name (t.es.map (mvIv zc)) (some t.lo) (some t.hi) := by
+  have e : zcIv (okz zc) = fun iv => (Except.ok (mvIv zc iv) : Except Err (Iv Int)) := by funext iv; rfl
+  simp only [zcTier, e]
+  rw [mapM_pure (mvIv zc)]
+  rfl
+
+theorem zcTier_P (zc : Int → Int) (t : PTier Int) :
+    zcTier (okz zc) (.P t) = .P <$> mkPTier t.name (t.ps.map (mvPt zc)) (some t.lo) (some t.hi) := by
+  have e : zcPt (okz zc) = fun p => (Except.ok (mvPt zc p) : Except Err (Pt Int)) := by funext p; rfl
+  simp only [zcTier, e]
+  rw [mapM_pure (mvPt zc)]
+  rfl
+
+theorem stripped_map_mvIv (zc : Int → Int) (es : List (Iv Int)) (hs : Stripped es) : Stripped (es.map (mvIv zc)) := by
+  intro iv hiv
+  obtain ⟨x, hx, rfl⟩ := List.mem_map.1 hiv
+  exact hs x hx
+
+/-- **tgBoundaries_spec (interval tier, order-preserving search)**: if `zc` is monotone and collapses no
+interval, the new tier is well formed and its entries are the old ones, in the same order, with the
+same labels, each boundary replaced by its crossing -/
+theorem zcTier_I_mono (zc : Int → Int) (hmono : ∀ x y, x ≤ y → zc x ≤ zc y) (t : ITier Int) (hwf : t.WF)
+    (hpos : ∀ iv ∈ t.es, zc iv.s < zc iv.e) :
+    ∃ t', zcTier (okz zc) (.I t) = .ok (.I t') ∧ t'.WF ∧ t'.name = t.name ∧ t'.es = t.es.map (mvIv zc) := by
+  have hp : Pos (t.es.map (mvIv zc)) := by
+    intro iv hiv
+    obtain ⟨x, hx, rfl⟩ := List.mem_map.1 hiv
+    exact hpos x hx
+  have hd : Disj (t.es.map (mvIv zc)) := by
+    unfold Disj
+    rw [List.pairwise_map]
+    exact hwf.disj.imp (fun {a b} hab => hmono _ _ hab)
+  obtain ⟨t', e1, e2, e3, e4, _, _⟩ := mkITier_wf t.name _ t.lo t.hi hwf.span hp hd (stripped_map_mvIv zc _ hwf.stripped)
+  refine ⟨t', ?_, e2, e4, e3⟩
+  rw [zcTier_I, e1]; rfl
+
+theorem mkITier_ok_es {n : String} {es : List (Iv Int)} {lo hi : Option Int} {t : ITier Int}
+    (h : mkITier n es lo hi = .ok t) :
+    t.name = n ∧ t.es = sortIvs (es.map fun iv => { iv with l := pyStrip iv.l }) := by
+  unfold mkITier at h
+  simp only at h
+  split at h
+  · split at h
+    · cases h; exact ⟨rfl, rfl⟩
+    · cases h
+  · cases h
+
+theorem mkITier_some_err {n : String} {es : List (Iv Int)} {lo hi : Int} {e : Err}
+    (h : mkITier n es (some lo) (some hi) = .error e) : e = .TextgridStateError := by
+  rcases C12.mkITier_err h with h1 | h1
+  · exact h1
+  · exfalso
+    subst h1
+    unfold mkITier at h
+    simp only [Option.toList_some] at h
+    rw [pyMinList_append_single, pyMaxList_append_single] at h
+    simp only at h
+    split at h <;> cases h
+
+theorem mkPTier_ok_ps {n : String} {ps : List (Pt Int)} {lo hi : Option Int} {t : PTier Int}
+    (h : mkPTier n ps lo hi = .ok t) :
+    t.name = n ∧ t.ps = sortPts (ps.map fun p => { p with l := pyStrip p.l }) := by
+  unfold mkPTier at h
+  simp only at h
+  split at h
+  · cases h; exact ⟨rfl, rfl⟩
+  · cases h
+
+theorem mkPTier_some_ok (n : String) (ps : List (Pt Int)) (lo hi : Int) :
+    ∃ t, mkPTier n ps (some lo) (some hi) = .ok t := by
+  cases h : mkPTier n ps (some lo) (some hi) with
+  | ok t => exact ⟨t, rfl⟩
+  | error e =>
+    exfalso
+    unfold mkPTier at h
+    simp only [Option.toList_some, List.append_assoc] at h
+    generalize (sortPts (ps.map fun p => ({ p with l := pyStrip p.l } : Pt Int))).map (·.t) = ts at h
+    cases ts <;> simp [pyMinList, pyMaxList] at h
+
+/-- **tgBoundaries_spec (interval tier, any search)**: whenever the new tier can be built, it has the
+old name, as many entries as before and the same labels: its entries are the old ones with `zc`
+applied to the boundaries, re-sorted by the constructor; otherwise the constructor raises
+`TextgridStateError` (an interval collapsed or two overlap) -/
+theorem zcTier_I_ok (zc : Int → Int) (t : ITier Int) (hstr : Stripped t.es) :
+    (∀ u, zcTier (okz zc) (.I t) = .ok u → ∃ t', u = .I t' ∧ t'.name = t.name ∧
+      t'.es = sortIvs (t.es.map (mvIv zc)) ∧ t'.es.length = t.es.length ∧
+      (t'.es.map (·.l)).Perm (t.es.map (·.l))) ∧
+    (∀ e, zcTier (okz zc) (.I t) = .error e → e = .TextgridStateError) := by
+  rw [zcTier_I]
+  have hperm := sortIvs_perm (t.es.map (mvIv zc))
+  have hlab : ((t.es.map (mvIv zc)).map (·.l)) = t.es.map (·.l) := by
+    rw [List.map_map]; rfl
+  constructor
+  · intro u hu
+    obtain ⟨t', ht', rfl⟩ := C12.map_ok hu
+    obtain ⟨hn, hes⟩ := mkITier_ok_es ht'
+    rw [map_strip_of_stripped _ (stripped_map_mvIv zc _ hstr)] at hes
+    refine ⟨t', rfl, hn, hes, ?_, ?_⟩
+    · rw [hes, hperm.length_eq, List.length_map]
+    · rw [hes, ← hlab]; exact hperm.map _
+  · intro e he
+    exact mkITier_some_err (C12.map_err he)
+
+/-- **tgBoundaries_spec (point tier)**: the new point tier always exists; its points are the old ones at
+their crossings, re-sorted (points that move past each other swap places), labels and count kept -/
+theorem zcTier_P_ok (zc : Int → Int) (t : PTier Int) (hstr : ∀ p ∈ t.ps, pyStrip p.l = p.l) :
+    ∃ t', zcTier (okz zc) (.P t) = .ok (.P t') ∧ t'.name = t.name ∧
+      t'.ps = sortPts (t.ps.map (mvPt zc)) ∧ t'.ps.length = t.ps.length ∧
+      (t'.ps.map (·.l)).Perm (t.ps.map (·.l)) := by
+  rw [zcTier_P]
+  obtain ⟨t', ht'⟩ := mkPTier_some_ok t.name (t.ps.map (mvPt zc)) t.lo t.hi
+  obtain ⟨hn, hps⟩ := mkPTier_ok_ps ht'
+  have hs : (t.ps.map (mvPt zc)).map (fun p => ({ p with l := pyStrip p.l } : Pt Int)) = t.ps.map (mvPt zc) := by
+    rw [List.map_map]
+    apply List.map_congr_left
+    intro p hp
+    show (⟨zc p.t, pyStrip p.l⟩ : Pt Int) = ⟨zc p.t, p.l⟩
+    rw [hstr p hp]
+  rw [hs] at hps
+  have hperm : (sortPts (t.ps.map (mvPt zc))).Perm (t.ps.map (mvPt zc)) := List.mergeSort_perm _ _
+  have hlab : ((t.ps.map (mvPt zc)).map (·.l)) = t.ps.map (·.l) := by rw [List.map_map]; rfl
+  refine ⟨t', by rw [ht']; rfl, hn, hps, ?_, ?_⟩
+  · rw [hps, hperm.length_eq, List.length_map]
+  · rw [hps, ← hlab]; exact hperm.map _
+
+theorem zcTier_name {zc : Int → Except Err Int} {t t' : AnyTier Int} (h : zcTier zc t = .ok t') :
+    t'.name = t.name ∧ t'.isInterval = t.isInterval := by
+  cases t with
+  | I it =>
+    simp only [zcTier] at h
+    obtain ⟨es, _, h2⟩ := C12.bind_ok h
+    obtain ⟨z, hz, rfl⟩ := C12.map_ok h2
+    exact ⟨C12.ITier.new_name hz, rfl⟩
+  | P pt =>
+    simp only [zcTier] at h
+    obtain ⟨ps, _, h2⟩ := C12.bind_ok h
+    obtain ⟨z, hz, rfl⟩ := C12.map_ok h2
+    exact ⟨C12.PTier.new_name hz, rfl⟩
+
+/-- two lists related position by position -/
+inductive Pointwise {β : Type} (R : β → β → Prop) : List β → List β → Prop
+  | nil : Pointwise R [] []
+  | cons {a b : β} {l l' : List β} : R a b → Pointwise R l l' → Pointwise R (a :: l) (b :: l')
+
+theorem Pointwise.get {β : Type} {R : β → β → Prop} {l l' : List β} (h : Pointwise R l l') :
+    l.length = l'.length ∧ ∀ (i : Nat) (a : β), l[i]? = some a → ∃ b, l'[i]? = some b ∧ R a b := by
+  induction h with
+  | nil => exact ⟨rfl, by intro i a h; simp at h⟩
+  | cons hr _ ih =>
+    refine ⟨by simp [ih.1], ?_⟩
+    intro i a hi
+    cases i with
+    | zero => simp at hi; subst hi; exact ⟨_, by simp, hr⟩
+    | succ i => simpa using ih.2 i a (by simpa using hi)
+
+theorem Pointwise.map_eq {β γ : Type} {R : β → β → Prop} {l l' : List β} (h : Pointwise R l l') (f : β → γ)
+    (hf : ∀ a b, R a b → f b = f a) : l'.map f = l.map f := by
+  induction h with
+  | nil => rfl
+  | cons hr _ ih => simp only [List.map_cons, ih, hf _ _ hr]
+
+/-- what one tier becomes: left alone when its class is not to be adjusted, else `zcTier` of it -/
+def ZcRel (zc : Int → Except Err Int) (ap ai : Bool) (t t' : AnyTier Int) : Prop :=
+  if zcSkips ap ai t = true then t' = t else zcTier zc t = .ok t'
+
+theorem zcRel_name {zc : Int → Except Err Int} {ap ai : Bool} {t t' : AnyTier Int} (h : ZcRel zc ap ai t t') :
+    t'.name = t.name ∧ t'.isInterval = t.isInterval := by
+  unfold ZcRel at h
+  split at h
+  · rw [h]; exact ⟨rfl, rfl⟩
+  · exact zcTier_name h
+
+theorem fold_zc (zc : Int → Except Err Int) (ap ai : Bool) :
+    ∀ (rest pre : List (AnyTier Int)) (acc g' : Tg Int), acc.tiers = pre ++ rest →
+      (C12.namesOf (pre ++ rest)).Nodup →
+      rest.foldlM (zcStep zc ap ai) acc = .ok g' →
+      ∃ post, g'.tiers = pre ++ post ∧ Pointwise (ZcRel zc ap ai) rest post := by
+  intro rest
+  induction rest with
+  | nil =>
+    intro pre acc g' hacc _ h
+    have : acc = g' := C12.pure_ok h
+    subst this
+    exact ⟨[], hacc, Pointwise.nil⟩
+  | cons t rest ih =>
+    intro pre acc g' hacc hnd h
+    rw [List.foldlM_cons] at h
+    obtain ⟨acc1, h1, h2⟩ := C12.bind_ok h
+    unfold zcStep at h1
+    by_cases hsk : zcSkips ap ai t = true
+    · rw [if_pos hsk] at h1
+      have : acc = acc1 := C12.pure_ok h1
+      subst this
+      obtain ⟨post, e1, e2⟩ := ih (pre ++ [t]) acc g' (by rw [hacc]; simp) (by simpa using hnd) h2
+      refine ⟨t :: post, by rw [e1]; simp, Pointwise.cons ?_ e2⟩
+      unfold ZcRel; rw [if_pos hsk]
+    · rw [if_neg hsk] at h1
+      obtain ⟨nt, hz, hr⟩ := C12.bind_ok h1
+      have hname := (zcTier_name hz).1
+      have haccnd : acc.names.Nodup := by
+        show (C12.namesOf acc.tiers).Nodup
+        rw [hacc]; exact hnd
+      have hget : acc.tiers[pre.length]? = some t := by rw [hacc]; simp
+      have hidx : acc.indexOf t.name = some pre.length := C12.idxOf_of_getElem haccnd hget
+      obtain ⟨g'', e1, e2, _⟩ := (C12.replaceTier_spec acc t.name nt .warning haccnd).2.2 pre.length hidx
+        (by rw [hname]; intro hc; exact hc.1 rfl) (by intro hc; cases hc.1)
+      rw [hr] at e1
+      cases e1
+      have hset : acc1.tiers = (pre ++ [nt]) ++ rest := by
+        rw [e2, hacc]; simp
+      have hnd' : (C12.namesOf ((pre ++ [nt]) ++ rest)).Nodup := by
+        have : C12.namesOf ((pre ++ [nt]) ++ rest) = C12.namesOf (pre ++ t :: rest) := by
+          simp [C12.namesOf, hname]
+        rw [this]; exact hnd
+      obtain ⟨post, e3, e4⟩ := ih (pre ++ [nt]) acc1 g' hset hnd' h2
+      refine ⟨nt :: post, by rw [e3]; simp, Pointwise.cons ?_ e4⟩
+      unfold ZcRel; rw [if_neg hsk]; exact hz
+
+/-- **tgBoundaries_spec (textgrid)**: for a textgrid with pairwise different tier names, when the call
+returns, the tiers are the old ones position by position — left alone if their class is not to be
+adjusted, otherwise rebuilt by `zcTier` (same name, same class; entry counts and labels by
+`zcTier_I_ok` / `zcTier_P_ok`) — so tier names and order are unchanged -/
+theorem tgBoundaries_spec (zc : Int → Except Err Int) (g g' : Tg Int) (ap ai : Bool) (hnd : g.names.Nodup)
+    (h : tgBoundaries zc g ap ai = .ok g') :
+    Pointwise (ZcRel zc ap ai) g.tiers g'.tiers ∧ g'.names = g.names ∧
+      g'.tiers.map (·.isInterval) = g.tiers.map (·.isInterval) := by
+  unfold tgBoundaries at h
+  obtain ⟨post, e1, e2⟩ := fold_zc zc ap ai g.tiers [] g g' (by simp) hnd h
+  simp only [List.nil_append] at e1
+  refine ⟨by rw [e1]; exact e2, ?_, ?_⟩
+  · show g'.tiers.map (·.name) = g.tiers.map (·.name)
+    rw [e1]
+    exact e2.map_eq (·.name) (fun a b hr => (zcRel_name hr).1)
+  · rw [e1]
+    exact e2.map_eq (·.isInterval) (fun a b hr => (zcRel_name hr).2)
+
+/-- an error of the search for some boundary is the error of the whole call (nothing is "left
+unchanged when no crossing is found": the exception propagates) -/
+theorem zcTier_I_search_error (zc : Int → Except Err Int) (t : ITier Int) (iv : Iv Int) (rest : List (Iv Int)) (e : Err)
+    (hes : t.es = iv :: rest) (hz : zc iv.s = .error e) : zcTier zc (.I t) = .error e := by
+  simp only [zcTier]
+  rw [hes, List.mapM_cons]
+  unfold zcIv
+  rw [hz]; rfl
+
+
+/-! ## 16. non-vacuity and concrete illustrations
+
+`example … := by decide` are kernel-checked; `#guard`s are interpreter tests (labels are `String`s, on
+which `decide` gets stuck).  The values are the ones the real code returns (harness corpus). -/
+
+/-- rate 8, one tick per sample -/
+def exS : List Int := [5, 3, 2, 1, -1, -4, 2, 7, 7, 7, 7, 7, 7, -3, 4, 4, 4, 4, 4, 4]
+
+-- hypotheses of `result_on_grid_partial` are satisfiable and the conclusion is observed
+example : searchList 1 exS 3 2 = .ok 3 ∧ Genuine exS 3 := by decide
+example : searchList 1 exS 10 2 = .ok 13 ∧ Genuine exS 13 := by decide
+example : searchList 1 exS 0 2 = .ok 3 := by decide
+-- a target beyond the end / before the start still returns a crossing inside the recording
+example : searchList 1 exS 24 2 = .ok 13 ∧ searchList 1 exS (-8) 2 = .ok 3 := by decide
+-- documented errors
+example : searchList 1 exS 3 1 = .error .ArgumentError := by decide
+example : searchList 1 [3, 3, 3, 3, 3, 3] 2 2 = .error .FindZeroCrossingError := by decide
+example : Flat [3, 3, 3, 3, 3, 3] := flat_of_pos _ (by decide)
+-- all-zero: the target itself; at the very end the sample before it; a recording shorter than a step: error
+example : searchList 1 [0, 0, 0, 0, 0, 0, 0, 0] 3 2 = .ok 3 := by decide
+example : searchList 1 [0, 0, 0, 0, 0, 0, 0, 0] 8 2 = .ok 7 := by decide
+example : searchList 1 [0, 0] 0 2 = .error .FindZeroCrossingError := by decide
+-- a tie between the two sides goes to the left candidate
+example : searchList 1 [1, 0, 1, 1, 1, 0, 1] 3 4 = .ok 1 := by decide
+-- a zero in the window is preferred to a nearer sign change (reverse scan of [5, 0, 5, -1, -1])
+example : nextIdx [5, 0, 5, -1, -1] true = some 1 ∧ nextIdx [5, 5, -1, -1] true = some 2 := by decide
+example : thresholdCrossing [3, -2] false = some 1 ∧ thresholdCrossing [3, -3] false = some 0 := by decide
+-- the explicit round bound
+example : searchBound 20 3 2 = 10 ∧ searchBound 20 1000 2 = 502 := by decide
+-- A16 at model level: N rounds are not enough for the target N·step
+example : findFuel (listReader 1 [3, 3]) 1 2 (50 * 2) 2 50 = none :=
+  search_rounds_unbounded 1 [3, 3] (flat_of_pos _ (by decide)) 2 (by decide) 50
+-- byte level (width 2, rate 8): the same search through `Wav.getSamples`
+example : searchWav ⟨2, 8, pack 2 [5, 3, 2, 1, -1, -4, 2, 7]⟩ 1 3 2 = .ok 3 := by decide
+example : C16.Whole ⟨2, 8, pack 2 [5, 3, 2, 1, -1, -4, 2, 7]⟩ := by decide
+
+#guard searchList 2 exS 0 5 == .ok 7                      -- A6: sample position 3.5
+#guard searchList 4 exS (9 * 4) 9 == .ok 22               -- rate 8, target 1.125 s, step 2.25 samples: 5.5 samples
+#guard searchList 1 exS 2000 2 == .ok 13                  -- far target: 995 rounds
+#guard getInterval 3 4 10 true == (0, 3) && getInterval 8 4 10 false == (8, 10) && getInterval (-6) 4 10 false == (0, -2)
+
+/-- the tier of C07/C08's examples: `[10,30] a, [30,60] b, [80,90] c` in `[0, 100]` -/
+example : C07.exTier.WF := C07.exTier_wf
+
+-- splice at a boundary (60), in a gap (70), at the start of an interval (80)
+#guard (spliceTier C07.exTier 60 5 "NEW").toOption.map (·.es) ==
+  some [⟨10, 30, "a"⟩, ⟨30, 60, "b"⟩, ⟨60, 65, "NEW"⟩, ⟨85, 95, "c"⟩]
+#guard (spliceTier C07.exTier 70 5 "NEW").toOption.map (·.es) ==
+  some [⟨10, 30, "a"⟩, ⟨30, 60, "b"⟩, ⟨70, 75, "NEW"⟩, ⟨85, 95, "c"⟩]
+#guard (spliceTier C07.exTier 80 5 "NEW").toOption.map (fun t => (t.es, t.hi)) ==
+  some ([⟨10, 30, "a"⟩, ⟨30, 60, "b"⟩, ⟨80, 85, "NEW"⟩, ⟨85, 95, "c"⟩], 105)
+-- inside an interval: CollisionError
+#guard (match spliceTier C07.exTier 40 5 "NEW" with | .error .CollisionError => true | _ => false)
+
+def exTg : Tg Int := ⟨[.I C07.exTier, .P ⟨"P", [⟨20, "x"⟩, ⟨60, "y"⟩, ⟨95, "z"⟩], 0, 100⟩], some 0, some 100⟩
+
+#guard (spliceTg exTg [] "T" "NEW" 60 none 5).toOption.map (fun g => (g.names, g.hi)) == some (["T", "P"], some 105)
+#guard (spliceTg exTg [] "T" "NEW" 30 (some 60) 5).toOption.map (fun g => (g.tiers.map (·.timestamps), g.hi)) ==
+  some ([[10, 30, 35, 55, 65], [20, 70]], some 75)
+-- tgBoundaries with zc = "nearest multiple of 20, halves up"
+#guard (tgBoundaries (okz fun x => (x + 10) / 20 * 20) exTg true true).toOption.map (fun g => g.tiers.map (·.timestamps)) ==
+  some [[20, 40, 60, 80, 100], [20, 60, 100]]
+-- a collapsing interval: [80,90] → [80,80] is rejected by the constructor
+#guard (match tgBoundaries (okz fun x => x / 40 * 40) exTg true true with | .error .TextgridStateError => true | _ => false)
+-- point tiers only
+#guard (tgBoundaries (okz fun x => x / 40 * 40) exTg true false).toOption.map (fun g => g.tiers.map (·.timestamps)) ==
+  some [[10, 30, 60, 80, 90], [0, 40, 80]]
+-- _shiftTimes: every boundary equal to 30 moves to 32, on both tiers that have it
+#guard (shiftTimes exTg 30 32).toOption.map (fun g => g.tiers.map (·.timestamps)) == some [[10, 32, 60, 80, 90], [20, 60, 95]]
+
+end C18
